@@ -1,10 +1,22 @@
 (* C16 proofs: object-tree invariants for every history of member mutations. *)
 From Coq Require Import List ZArith String Ascii Bool Arith Lia.
-From Verif Require Import Lib.Sexp Model.C16_tree.
+From Verif Require Import Lib.Sexp.
+From Verif Require Import Gen.C16_shape Model.C16_tree.
 Import ListNotations.
 Open Scope string_scope.
 Open Scope list_scope.
 Open Scope nat_scope.
+
+(* Every statement below holds for both orders of "attach the new member" and "re-target the aliases of the replaced
+   member" inside set_member: [ab] is universally quantified (the translator says which one the code has). *)
+Section Flag.
+Variable ab : bool.
+Notation set_at := (C16_tree.set_at ab).
+Notation set_value := (C16_tree.set_value ab).
+Notation step := (C16_tree.step ab).
+Notation run := (C16_tree.run ab).
+Notation all_top_down := (C16_tree.all_top_down ab).
+Notation known_gap := (C16_tree.known_gap ab).
 
 (* ================================================================ A. dictionaries, heaps *)
 
@@ -257,37 +269,35 @@ Proof.
     eapply TP_trans; [exact H12 | eapply TP_update_target_aliases; eauto].
 Qed.
 
-Lemma TP_replace_prelude : forall s m v, TP s (fst (replace_prelude s m v)).
+Lemma TP_set_at : forall s a c k ms v, TP s (fst (set_at s a c k ms v)).
 Proof.
-  intros s m v. unfold replace_prelude.
-  destruct (getn s m) as [mn|]; [|apply TP_refl].
-  destruct (getn s v) as [vn|]; [|apply TP_refl].
-  destruct (is_ali (nkind mn)); [apply TP_refl|].
-  destruct (Nat.eqb m v); [apply TP_refl|].
-  destruct (is_mod (nkind mn) && is_ali (nkind vn)); [apply TP_refl|].
-  apply TP_retarget_all.
+  intros s a c k ms v. unfold C16_tree.set_at.
+  assert (Hw : TP s (fst (match write_member s c k v with Ok s2 => (s2, None) | Err e => (s, Some e) end))).
+  { destruct (write_member s c k v) as [s2|e] eqn:W; simpl; [eapply TP_write_member; eauto | apply TP_refl]. }
+  destruct a; [|destruct (mlookup k ms); exact Hw].
+  destruct (mlookup k ms) as [m|]; [|exact Hw].
+  destruct (replace_probe s m v); [apply TP_refl|].
+  destruct ab.
+  - assert (Hgo : TP s (fst (match write_member s c k v with
+                              | Err e => (s, Some e)
+                              | Ok s1 => retarget_all s1 (repl_aliases s1 m) v end))).
+    { destruct (write_member s c k v) as [s1|e] eqn:W; [|apply TP_refl].
+      eapply TP_trans; [eapply TP_write_member; eauto | apply TP_retarget_all]. }
+    destruct (kind_of s v) as [[| | | |]|]; try exact Hgo.
+    destruct (repl_aliases s m); [exact Hgo | apply TP_refl].
+  - pose proof (TP_retarget_all (repl_aliases s m) s v) as H1.
+    destruct (retarget_all s (repl_aliases s m) v) as [s1 [e|]]; simpl in *; auto.
+    destruct (write_member s1 c k v) as [s2|e] eqn:W; simpl; auto.
+    eapply TP_trans; [exact H1 | eapply TP_write_member; eauto].
 Qed.
 
 Lemma TP_set_value : forall s a r p v, TP s (fst (set_value s a r p v)).
 Proof.
-  intros s a r p v. unfold set_value.
+  intros s a r p v. unfold C16_tree.set_value.
   destruct (getn s v); [|apply TP_refl].
   destruct (locate s r p) as [[c k]|e]; [|apply TP_refl].
   destruct (members_r s c) as [ms|e]; [|apply TP_refl].
-  assert (Hpre : forall s1 e1, TP s s1 ->
-     TP s (fst (match e1 with
-                | Some e => (s1, Some e)
-                | None => match write_member s1 c k v with Ok s2 => (s2, None) | Err e => (s1, Some e) end
-                end))).
-  { intros s1 e1 H1. destruct e1; simpl; auto.
-    destruct (write_member s1 c k v) as [s2|e] eqn:W; simpl; auto.
-    eapply TP_trans; [exact H1 | eapply TP_write_member; eauto]. }
-  destruct a.
-  - destruct (mlookup k ms) as [m|].
-    + pose proof (TP_replace_prelude s m v) as Hp. destruct (replace_prelude s m v) as [s1 e1]. simpl in Hp.
-      exact (Hpre s1 e1 Hp).
-    + exact (Hpre s None (TP_refl s)).
-  - destruct (mlookup k ms); exact (Hpre s None (TP_refl s)).
+  apply TP_set_at.
 Qed.
 
 Lemma TP_del_value : forall s r p, TP s (fst (del_value s r p)).
@@ -381,18 +391,122 @@ Qed.
 
 (* ================================================================ C. paths and lookups *)
 
-Definition wfpar (h : list node) : Prop :=
-  forall x n c, nth_error h x = Some n -> nparent n = Some c -> c < x.
+(* parents are well founded: there is a numbering of the nodes (a permutation of the indices) along which every parent
+   comes before its children.  (Objects can be attached under containers that were built after them.) *)
+Definition wfrk (h : list node) (rk : nat -> nat) : Prop :=
+  (forall x n c, nth_error h x = Some n -> nparent n = Some c -> c < List.length h /\ rk c < rk x) /\
+  (forall x, x < List.length h -> rk x < List.length h) /\
+  (forall x y, x < List.length h -> y < List.length h -> rk x = rk y -> x = y).
 
-(* the fuel the model passes (the heap size) is never exhausted when parents precede children *)
-Lemma pth_stable : forall h, wfpar h -> forall x f, S x <= f -> pth h f x = pth h (S x) x.
+Definition wfpar (h : list node) : Prop := exists rk, wfrk h rk.
+
+(* the fuel the model passes (the heap size) is never exhausted *)
+Lemma pth_stable : forall h rk, wfrk h rk -> forall x f, S (rk x) <= f -> pth h f x = pth h (S (rk x)) x.
 Proof.
-  intros h Hw x. induction x as [x IH] using lt_wf_ind. intros f Hf.
+  intros h rk [He _] x. remember (rk x) as m eqn:Em. revert x Em.
+  induction m as [m IH] using lt_wf_ind. intros x Em f Hf.
   destruct f as [|f]; [lia|]. simpl.
   destruct (nth_error h x) as [n|] eqn:G; auto.
   destruct (nparent n) as [c|] eqn:P; auto.
-  assert (Hc : c < x) by (eapply Hw; eauto).
-  rewrite (IH c Hc f) by lia. rewrite (IH c Hc x) by lia. reflexivity.
+  destruct (He x n c G P) as [_ Hc].
+  assert (Hlt : rk c < m) by lia.
+  rewrite (IH (rk c) Hlt c eq_refl f) by lia. rewrite (IH (rk c) Hlt c eq_refl m) by lia. reflexivity.
+Qed.
+
+Lemma pth_fuel : forall h rk, wfrk h rk -> forall x f, x < List.length h -> List.length h <= f ->
+  pth h f x = pth h (S (rk x)) x.
+Proof.
+  intros h rk Hw x f Hx Hf. apply (pth_stable h rk Hw). destruct Hw as [_ [Hb _]]. specialize (Hb x Hx). lia.
+Qed.
+
+Lemma wfpar_init : wfpar [].
+Proof.
+  exists (fun x => x). split; [|split].
+  - intros x n c H. destruct x; discriminate.
+  - intros x H. simpl in H. lia.
+  - intros x y H. simpl in H. lia.
+Qed.
+
+(* a new node without parent *)
+Lemma wfpar_app : forall h nd, wfpar h -> nparent nd = None -> wfpar (h ++ [nd]).
+Proof.
+  intros h nd [rk [He [Hb Hi]]] P. set (L := List.length h).
+  exists (fun y => if Nat.eqb y L then L else rk y).
+  split; [|split]; rewrite app_length; simpl; fold L.
+  - intros x n c G Pn. destruct (Nat.lt_ge_cases x L) as [Hx|Hx].
+    + rewrite nth_error_app1 in G by exact Hx. destruct (He x n c G Pn) as [Hc Hr]. fold L in Hc.
+      assert (E1 : Nat.eqb x L = false) by (apply Nat.eqb_neq; lia).
+      assert (E2 : Nat.eqb c L = false) by (apply Nat.eqb_neq; lia). rewrite E1, E2. split; [lia|exact Hr].
+    + rewrite nth_error_app2 in G by exact Hx. fold L in G. destruct (x - L) as [|j] eqn:Ej.
+      * simpl in G. inversion G; subst; congruence.
+      * simpl in G. destruct j; discriminate.
+  - intros x Hx. destruct (Nat.eqb x L) eqn:E; [lia|]. apply Nat.eqb_neq in E.
+    assert (x < L) by lia. specialize (Hb x H). fold L in Hb. lia.
+  - intros x y Hx Hy E.
+    destruct (Nat.eq_dec x L) as [Ex|Ex]; destruct (Nat.eq_dec y L) as [Ey|Ey].
+    + lia.
+    + rewrite (proj2 (Nat.eqb_eq x L) Ex), (proj2 (Nat.eqb_neq y L) Ey) in E.
+      assert (H : y < L) by lia. specialize (Hb y H). fold L in Hb. lia.
+    + rewrite (proj2 (Nat.eqb_neq x L) Ex), (proj2 (Nat.eqb_eq y L) Ey) in E.
+      assert (H : x < L) by lia. specialize (Hb x H). fold L in Hb. lia.
+    + rewrite (proj2 (Nat.eqb_neq x L) Ex), (proj2 (Nat.eqb_neq y L) Ey) in E. apply Hi; fold L; lia.
+Qed.
+
+(* an update that leaves the parents alone *)
+Lemma wfpar_upd_keep : forall h i f, (forall n, nparent (f n) = nparent n) -> wfpar h -> wfpar (upd h i f).
+Proof.
+  intros h i f Hf [rk [He [Hb Hi]]]. exists rk. split; [|split]; rewrite upd_length; auto.
+  intros x n c G P. destruct (Nat.eq_dec i x) as [->|Hx].
+  - rewrite nth_upd_same in G. destruct (nth_error h x) as [n0|] eqn:G0; simpl in G; [|discriminate].
+    inversion G; subst n. rewrite Hf in P. exact (He x n0 c G0 P).
+  - rewrite nth_upd_other in G by auto. exact (He x n c G P).
+Qed.
+
+Lemma wfpar_ext : forall h h', List.length h = List.length h' ->
+  (forall i, option_map nparent (nth_error h i) = option_map nparent (nth_error h' i)) -> wfpar h -> wfpar h'.
+Proof.
+  intros h h' L E [rk [He [Hb Hi]]]. exists rk. split; [|split]; rewrite <- L; auto.
+  intros x n' c G P. specialize (E x). rewrite G in E.
+  destruct (nth_error h x) as [n|] eqn:G0; simpl in E; [|discriminate].
+  apply (He x n c G0). inversion E. congruence.
+Qed.
+
+(* a node that is nobody's parent gets a (new) parent: renumber it last *)
+Lemma wfpar_relink : forall h v i, wfpar h -> v < List.length h -> i < List.length h -> i <> v ->
+  (forall x n, nth_error h x = Some n -> nparent n <> Some v) ->
+  wfpar (upd h v (with_parent (Some i))).
+Proof.
+  intros h v i [rk [He [Hb Hi]]] Hv Hil Hne Hleaf. set (L := List.length h) in *.
+  exists (fun y => if Nat.eqb y v then L - 1 else if Nat.ltb (rk v) (rk y) then rk y - 1 else rk y).
+  assert (Hsh : forall y, y < L -> y <> v ->
+            (if Nat.ltb (rk v) (rk y) then rk y - 1 else rk y) < L - 1 /\
+            ((rk v < rk y /\ (if Nat.ltb (rk v) (rk y) then rk y - 1 else rk y) = rk y - 1) \/
+             (rk y < rk v /\ (if Nat.ltb (rk v) (rk y) then rk y - 1 else rk y) = rk y))).
+  { intros y Hy Hyv. pose proof (Hb y Hy) as By. pose proof (Hb v Hv) as Bv.
+    assert (rk y <> rk v) by (intro Q; apply Hyv; apply Hi; auto).
+    destruct (Nat.ltb (rk v) (rk y)) eqn:Q; [apply Nat.ltb_lt in Q | apply Nat.ltb_ge in Q];
+      (split; [lia | first [lia | left; split; [lia|reflexivity] | right; split; [lia|reflexivity]]]). }
+  split; [|split]; rewrite upd_length; fold L.
+  - intros x n c G P. destruct (Nat.eq_dec x v) as [->|Hx].
+    + rewrite nth_upd_same in G. destruct (nth_error h v) as [n0|] eqn:G0; simpl in G; [|discriminate].
+      inversion G; subst n. simpl in P. inversion P; subst c. split; [exact Hil|].
+      rewrite Nat.eqb_refl. assert (E : Nat.eqb i v = false) by (apply Nat.eqb_neq; auto). rewrite E.
+      destruct (Hsh i Hil Hne) as [H1 _]. lia.
+    + rewrite nth_upd_other in G by auto. destruct (He x n c G P) as [Hc Hr]. fold L in Hc.
+      assert (Hcv : c <> v) by (intro; subst c; exact (Hleaf x n G P)).
+      assert (Hxl : x < L) by (apply nth_error_Some; congruence).
+      split; [exact Hc|].
+      assert (Ex : Nat.eqb x v = false) by (apply Nat.eqb_neq; auto).
+      assert (Ec : Nat.eqb c v = false) by (apply Nat.eqb_neq; auto). rewrite Ex, Ec.
+      destruct (Hsh x Hxl Hx) as [_ [[A1 A2]|[A1 A2]]]; destruct (Hsh c Hc Hcv) as [_ [[B1 B2]|[B1 B2]]]; lia.
+  - intros x Hx. destruct (Nat.eqb x v) eqn:E; [lia|]. apply Nat.eqb_neq in E. destruct (Hsh x Hx E) as [H1 _]. lia.
+  - intros x y Hx Hy E.
+    destruct (Nat.eq_dec x v) as [E1|E1]; destruct (Nat.eq_dec y v) as [E2|E2].
+    + congruence.
+    + rewrite (proj2 (Nat.eqb_eq x v) E1), (proj2 (Nat.eqb_neq y v) E2) in E. destruct (Hsh y Hy E2) as [H1 _]. lia.
+    + rewrite (proj2 (Nat.eqb_neq x v) E1), (proj2 (Nat.eqb_eq y v) E2) in E. destruct (Hsh x Hx E1) as [H1 _]. lia.
+    + rewrite (proj2 (Nat.eqb_neq x v) E1), (proj2 (Nat.eqb_neq y v) E2) in E. apply Hi; auto.
+      destruct (Hsh x Hx E1) as [_ [[A1 A2]|[A1 A2]]]; destruct (Hsh y Hy E2) as [_ [[B1 B2]|[B1 B2]]]; lia.
 Qed.
 
 Definition node_path (s : state) (n : node) : pres :=
@@ -403,52 +517,59 @@ Definition node_path (s : state) (n : node) : pres :=
 
 Lemma path_of_unfold : forall s x n, wfpar (heap s) -> getn s x = Some n -> path_of s x = node_path s n.
 Proof.
-  intros s x n Hw Hg. pose proof (getn_lt _ _ _ Hg) as Hlt.
+  intros s x n [rk Hw] Hg. pose proof (getn_lt _ _ _ Hg) as Hlt.
   unfold node_path. unfold path_of at 1.
-  rewrite (pth_stable _ Hw x) by lia. simpl. unfold getn in Hg. rewrite Hg.
+  rewrite (pth_fuel _ rk Hw x (List.length (heap s))) by lia. simpl. unfold getn in Hg. rewrite Hg.
   destruct (nparent n) as [c|] eqn:P; auto.
-  assert (Hc : c < x) by (eapply Hw; eauto).
-  unfold path_of.
-  rewrite (pth_stable _ Hw c x) by lia. rewrite (pth_stable _ Hw c (List.length (heap s))) by lia. reflexivity.
+  pose proof Hw as [He _]. destruct (He x n c Hg P) as [Hc Hr].
+  unfold path_of. rewrite (pth_stable _ rk Hw c (rk x)) by lia.
+  rewrite (pth_fuel _ rk Hw c (List.length (heap s))) by lia. reflexivity.
 Qed.
 
 Lemma path_of_no_fuel : forall s, wfpar (heap s) -> forall x n, getn s x = Some n -> path_of s x <> PFuel.
 Proof.
-  intros s Hw x. induction x as [x IH] using lt_wf_ind. intros n G.
-  rewrite (path_of_unfold s x n Hw G). unfold node_path.
-  destruct (nparent n) as [c|] eqn:P.
-  - assert (Hc : c < x) by (eapply Hw; eauto).
-    destruct (getn s c) as [cn|] eqn:Gc.
-    + specialize (IH c Hc cn Gc). destruct (path_of s c); congruence.
-    + unfold path_of. pose proof (getn_lt _ _ _ G) as Hlt.
-      destruct (List.length (heap s)) as [|f]; [lia|]. simpl. unfold getn in Gc. rewrite Gc. congruence.
-  - destruct (is_ali (nkind n)); congruence.
+  intros s Hw. pose proof Hw as [rk [He _]].
+  assert (H : forall m x n, rk x = m -> getn s x = Some n -> path_of s x <> PFuel).
+  { induction m as [m IH] using lt_wf_ind. intros x n Em G.
+    rewrite (path_of_unfold s x n Hw G). unfold node_path.
+    destruct (nparent n) as [c|] eqn:P.
+    - destruct (He x n c G P) as [Hc Hr].
+      destruct (getn s c) as [cn|] eqn:Gc.
+      + assert (Hlt : rk c < m) by lia. specialize (IH (rk c) Hlt c cn eq_refl Gc). destruct (path_of s c); congruence.
+      + unfold getn in Gc. apply nth_error_None in Gc. lia.
+    - destruct (is_ali (nkind n)); congruence. }
+  intros x n G. exact (H (rk x) x n eq_refl G).
 Qed.
 
 (* ---- what paths depend on: name, kind, parent *)
 Definition npk (n : node) := (nname n, nkind n, nparent n).
 
-Lemma pth_ext : forall h h' b, wfpar h ->
-  (forall i, i < b -> option_map npk (nth_error h i) = option_map npk (nth_error h' i)) ->
-  forall f x, x < b -> pth h f x = pth h' f x.
+(* two heaps that agree on (name, kind, parent) outside a set of nodes that are nobody's parent *)
+Lemma pth_agree : forall h h' (bad : nat -> Prop),
+  (forall i, ~ bad i -> option_map npk (nth_error h i) = option_map npk (nth_error h' i)) ->
+  (forall x n c, nth_error h x = Some n -> nparent n = Some c -> ~ bad c) ->
+  forall f x, ~ bad x -> pth h f x = pth h' f x.
 Proof.
-  intros h h' b Hw He f. induction f as [|f IH]; intros x Hx; simpl; auto.
+  intros h h' bad He Hp f. induction f as [|f IH]; intros x Hx; simpl; auto.
   pose proof (He x Hx) as E.
   destruct (nth_error h x) as [n|] eqn:G; destruct (nth_error h' x) as [n'|] eqn:G'; simpl in E; try discriminate; auto.
   unfold npk in E. inversion E as [[E1 E2 E3]]. rewrite E1, E2, E3.
   destruct (nparent n') as [c|] eqn:P; auto.
-  assert (Hc : c < x) by (eapply Hw; eauto; congruence).
-  rewrite IH by lia. reflexivity.
+  rewrite IH; [reflexivity|]. apply (Hp x n c G). congruence.
 Qed.
 
-Lemma path_of_ext : forall s s' b, wfpar (heap s) -> wfpar (heap s') ->
-  (forall i, i < b -> option_map npk (getn s i) = option_map npk (getn s' i)) ->
-  b <= List.length (heap s) -> b <= List.length (heap s') ->
-  forall x, x < b -> path_of s x = path_of s' x.
+Lemma path_of_agree : forall s s' (bad : nat -> Prop), wfpar (heap s) -> wfpar (heap s') ->
+  (forall i, ~ bad i -> option_map npk (getn s i) = option_map npk (getn s' i)) ->
+  (forall x n c, getn s x = Some n -> nparent n = Some c -> ~ bad c) ->
+  forall x, ~ bad x -> x < List.length (heap s) -> x < List.length (heap s') -> path_of s x = path_of s' x.
 Proof.
-  intros s s' b Hw Hw' He L L' x Hx. unfold path_of.
-  rewrite (pth_stable _ Hw x) by lia. rewrite (pth_stable _ Hw' x (List.length (heap s'))) by lia.
-  apply pth_ext with b; auto.
+  intros s s' bad [rk Hw] [rk' Hw'] He Hp x Hx L L'. unfold path_of.
+  set (F := List.length (heap s) + List.length (heap s')).
+  rewrite (pth_fuel _ rk Hw x (List.length (heap s))) by lia.
+  rewrite <- (pth_fuel _ rk Hw x F) by (unfold F; lia).
+  rewrite (pth_fuel _ rk' Hw' x (List.length (heap s'))) by lia.
+  rewrite <- (pth_fuel _ rk' Hw' x F) by (unfold F; lia).
+  apply (pth_agree (heap s) (heap s') bad); auto.
 Qed.
 
 (* ---- what lookups depend on: the root dictionary and (is-alias, members) of each node *)
@@ -503,7 +624,7 @@ Proof.
   constructor.
   - intros k x H. discriminate.
   - intros c cn k x H. unfold getn in H. simpl in H. destruct c; discriminate.
-  - intros x n c H. destruct x; discriminate.
+  - exact wfpar_init.
 Qed.
 
 (* every object is retrievable from the collection by its own path *)
@@ -670,8 +791,10 @@ Proof.
     destruct (s_mem s HI c cn k x Gc L) as [n [Gx [P N]]].
     specialize (HN x). rewrite Gx in HN. destruct (getn s' x) as [n'|]; simpl in HN; [|discriminate].
     exists n'. unfold skel in HN. inversion HN as [[F1 F2 F3 F4 F5]]. repeat split; congruence.
-  - intros x n' c G P. destruct (skel_eq_node s s' x n' H G) as [n [Gx Ex]].
-    unfold skel in Ex. inversion Ex as [[E1 E2 E3 E4 E5]]. eapply (s_par s HI); eauto. congruence.
+  - apply (wfpar_ext (heap s) (heap s')); [apply skel_eq_length; exact H | | exact (s_par s HI)].
+    intro i. pose proof (skel_eq_npk s s' H i) as E. unfold getn in E.
+    destruct (nth_error (heap s) i); destruct (nth_error (heap s') i); simpl in *; try discriminate; auto.
+    unfold npk in E. inversion E. congruence.
 Qed.
 
 Lemma skel_eq_add_backref : forall s t p a, skel_eq s (add_backref s t p a).
@@ -699,15 +822,40 @@ Proof.
   - destruct e; try apply skel_eq_refl. apply IH.
 Qed.
 
-Lemma skel_eq_replace_prelude : forall s m v, skel_eq s (fst (replace_prelude s m v)).
+(* the shape of set_member on the final container, whatever the order inside it: either the member is not written (the
+   skeleton is what it was), or it is written exactly once, to a state with the same skeleton *)
+Lemma set_at_shape : forall s a c k ms v s' e, set_at s a c k ms v = (s', e) ->
+  (skel_eq s s' /\ e <> None) \/
+  (exists s1 s2, skel_eq s s1 /\ write_member s1 c k v = Ok s2 /\ skel_eq s2 s' /\ (e = None \/ ab = true)).
 Proof.
-  intros s m v. unfold replace_prelude.
-  destruct (getn s m) as [mn|]; [|apply skel_eq_refl].
-  destruct (getn s v) as [vn|]; [|apply skel_eq_refl].
-  destruct (is_ali (nkind mn)); [apply skel_eq_refl|].
-  destruct (Nat.eqb m v); [apply skel_eq_refl|].
-  destruct (is_mod (nkind mn) && is_ali (nkind vn)); [apply skel_eq_refl|].
-  apply skel_eq_retarget_all.
+  intros s a c k ms v s' e H. unfold C16_tree.set_at in H.
+  assert (Hw : forall s0, skel_eq s s0 ->
+     match write_member s0 c k v with Ok s2 => (s2, None) | Err e => (s0, Some e) end = (s', e) ->
+     (skel_eq s s' /\ e <> None) \/
+     (exists s1 s2, skel_eq s s1 /\ write_member s1 c k v = Ok s2 /\ skel_eq s2 s' /\ (e = None \/ ab = true))).
+  { intros s0 H0 H1. destruct (write_member s0 c k v) as [s2|e0] eqn:W; inversion H1; subst.
+    - right. exists s0, s'. split; [exact H0|]. split; [exact W|]. split; [apply skel_eq_refl|]. left. reflexivity.
+    - left. split; [exact H0 | discriminate]. }
+  destruct a; [|destruct (mlookup k ms); exact (Hw s (skel_eq_refl s) H)].
+  destruct (mlookup k ms) as [m|]; [|exact (Hw s (skel_eq_refl s) H)].
+  destruct (replace_probe s m v) as [e0|]; [inversion H; subst; left; split; [apply skel_eq_refl | discriminate]|].
+  destruct ab.
+  - assert (Hgo : match write_member s c k v with
+                  | Err e => (s, Some e)
+                  | Ok s1 => retarget_all s1 (repl_aliases s1 m) v end = (s', e) ->
+                  (skel_eq s s' /\ e <> None) \/
+                  (exists s1 s2, skel_eq s s1 /\ write_member s1 c k v = Ok s2 /\ skel_eq s2 s' /\ (e = None \/ true = true))).
+    { intro H1. destruct (write_member s c k v) as [s1|e0] eqn:W.
+      - right. exists s, s1. split; [apply skel_eq_refl|]. split; [exact W|]. split; [|right; reflexivity].
+        pose proof (skel_eq_retarget_all (repl_aliases s1 m) s1 v) as HS. rewrite H1 in HS. exact HS.
+      - inversion H1; subst. left. split; [apply skel_eq_refl | discriminate]. }
+    destruct (kind_of s v) as [[| | | |]|]; try exact (Hgo H).
+    destruct (repl_aliases s m); [exact (Hgo H)|].
+    inversion H; subst. left. split; [apply skel_eq_refl | discriminate].
+  - pose proof (skel_eq_retarget_all (repl_aliases s m) s v) as HS.
+    destruct (retarget_all s (repl_aliases s m) v) as [s1 [e1|]]; simpl in HS.
+    + inversion H; subst. left. split; [exact HS | discriminate].
+    + exact (Hw s1 HS H).
 Qed.
 
 Lemma skel_eq_resolve : forall s a, skel_eq s (fst (resolve s a)).
@@ -726,25 +874,27 @@ Proof.
   eapply skel_eq_trans; [exact H1 | apply skel_eq_add_backref].
 Qed.
 
-(* ---- a freshly built object: the last node, not yet linked from anywhere *)
+(* ---- an object that nothing refers to: it has no members, no dictionary lists it, it is nobody's parent
+   (a freshly built object; an alias that was deleted or replaced) *)
 Record Detached (s : state) (v : nat) : Prop := {
-  d_last : S v = List.length (heap s);
-  d_node : exists vn, getn s v = Some vn /\ nparent vn = None /\ nmembers vn = [];
+  d_node : exists vn, getn s v = Some vn /\ nmembers vn = [];
   d_noroot : forall k, mlookup k (root s) <> Some v;
-  d_nomem : forall c cn k, getn s c = Some cn -> mlookup k (nmembers cn) <> Some v
+  d_nomem : forall c cn k, getn s c = Some cn -> mlookup k (nmembers cn) <> Some v;
+  d_leaf : forall x n, getn s x = Some n -> nparent n <> Some v
 }.
 
 Lemma Detached_skel_eq : forall s s' v, skel_eq s s' -> Detached s v -> Detached s' v.
 Proof.
   intros s s' v H D. pose proof H as [HR HN]. constructor.
-  - rewrite <- (skel_eq_length s s' H). apply (d_last s v D).
-  - destruct (d_node s v D) as [vn [G [P M]]]. specialize (HN v). rewrite G in HN.
+  - destruct (d_node s v D) as [vn [G M]]. specialize (HN v). rewrite G in HN.
     destruct (getn s' v) as [vn'|]; simpl in HN; [|discriminate]. exists vn'.
     unfold skel in HN. inversion HN as [[E1 E2 E3 E4 E5]]. repeat split; congruence.
   - intros k. rewrite <- HR. apply (d_noroot s v D).
   - intros c cn' k G. destruct (skel_eq_node s s' c cn' H G) as [cn [Gc Ec]].
     unfold skel in Ec. inversion Ec as [[E1 E2 E3 E4 E5]]. intro L.
     apply (d_nomem s v D c cn k Gc). congruence.
+  - intros x n' G. destruct (skel_eq_node s s' x n' H G) as [n [Gx Ex]].
+    unfold skel in Ex. inversion Ex as [[E1 E2 E3 E4 E5]]. intro Q. apply (d_leaf s v D x n Gx). congruence.
 Qed.
 
 Lemma getn_app_lt : forall s nd i, i < List.length (heap s) -> getn (mkState (heap s ++ [nd]) (root s)) i = getn s i.
@@ -765,17 +915,16 @@ Proof.
     + intros c cn k x G L. apply getn_app_old in G. destruct G as [[_ G]|[_ E]].
       * destruct (s_mem s HI c cn k x G L) as [n [Gx R]]. exists n. split; auto.
       * subst cn. rewrite M in L. discriminate.
-    + intros x n c G Pn. change (nth_error (heap s1) x = Some n) in G. fold (getn s1 x) in G.
-      apply getn_app_old in G. destruct G as [[_ G]|[_ E]].
-      * eapply (s_par s HI); eauto.
-      * subst n. congruence.
+    + unfold s1. simpl. apply wfpar_app; [exact (s_par s HI) | exact P].
   - constructor.
-    + simpl. rewrite app_length. simpl. lia.
     + exists nd. split; [apply getn_app_last | auto].
     + intros k L. simpl in L. destruct (s_root s HI k _ L) as [n [G _]]. apply getn_lt in G. lia.
     + intros c cn k G L. apply getn_app_old in G. destruct G as [[_ G]|[_ E]].
       * destruct (s_mem s HI c cn k _ G L) as [n [Gx _]]. apply getn_lt in Gx. lia.
       * subst cn. rewrite M in L. discriminate.
+    + intros x n G Pn. apply getn_app_old in G. destruct G as [[_ G]|[_ E]].
+      * destruct (s_par s HI) as [rk [He _]]. destruct (He x n _ G Pn) as [Hc _]. lia.
+      * subst n. congruence.
 Qed.
 
 (* ---- linking a detached object under an object *)
@@ -801,8 +950,7 @@ Lemma SInv_link_obj : forall s i cn k v vn, SInv s -> Detached s v ->
   SInv (link_obj s i k v).
 Proof.
   intros s i cn k v vn HI D Gi Hne Gv Nv.
-  destruct (d_node s v D) as [vn0 [Gv0 [Pv Mv]]]. rewrite Gv in Gv0. inversion Gv0; subst vn0. clear Gv0.
-  assert (Hiv : i < v). { pose proof (getn_lt _ _ _ Gi). pose proof (d_last s v D). lia. }
+  destruct (d_node s v D) as [vn0 [Gv0 Mv]]. rewrite Gv in Gv0. inversion Gv0; subst vn0. clear Gv0.
   constructor.
   - intros k' x L. unfold link_obj in L. simpl in L.
     destruct (s_root s HI k' x L) as [n [G [P [N [A MC]]]]].
@@ -825,7 +973,7 @@ Proof.
            destruct (s_mem s HI i cn k' x Gi L) as [n [Gx [P N]]].
            assert (x <> v) by (intro Hx; rewrite Hx in L; exact (d_nomem s v D i cn k' Gi L)).
            assert (x <> i). { intro; subst x. rewrite Gi in Gx. inversion Gx; subst n.
-                              pose proof (s_par s HI i cn i Gi P). lia. }
+                              destruct (s_par s HI) as [rk [He _]]. destruct (He i cn i Gi P). lia. }
            rewrite getn_link_obj by auto. apply Nat.eqb_neq in H, H0. rewrite H, H0. exists n. auto.
       * destruct (s_mem s HI c cn' k' x G L) as [n [Gx [P N]]].
         assert (x <> v) by (intro Hx; rewrite Hx in L; exact (d_nomem s v D c cn' k' G L)).
@@ -834,14 +982,15 @@ Proof.
         -- apply Nat.eqb_eq in E. subst x. rewrite Gi. rewrite Gi in Gx. inversion Gx; subst n. simpl.
            eexists. split; [reflexivity|]. simpl. auto.
         -- exists n. auto.
-  - intros x n c G P. change (getn (link_obj s i k v) x = Some n) in G. rewrite getn_link_obj in G by auto.
-    destruct (Nat.eqb x v) eqn:Exv.
-    + apply Nat.eqb_eq in Exv. subst x. rewrite Gv in G. simpl in G. inversion G; subst n. simpl in P.
-      inversion P; subst c. exact Hiv.
-    + destruct (Nat.eqb x i) eqn:Exi.
-      * apply Nat.eqb_eq in Exi. subst x. rewrite Gi in G. simpl in G. inversion G; subst n. simpl in P.
-        eapply (s_par s HI); eauto.
-      * eapply (s_par s HI); eauto.
+  - unfold link_obj, upd_state. simpl. apply wfpar_relink.
+    + apply wfpar_upd_keep; [intro n; reflexivity | exact (s_par s HI)].
+    + rewrite upd_length. eapply getn_lt; eauto.
+    + rewrite upd_length. eapply getn_lt; eauto.
+    + exact Hne.
+    + intros x n G. destruct (Nat.eq_dec i x) as [->|Hx].
+      * rewrite nth_upd_same in G. fold (getn s x) in G. rewrite Gi in G. simpl in G. inversion G; subst n. simpl.
+        exact (d_leaf s v D x cn Gi).
+      * rewrite nth_upd_other in G by auto. exact (d_leaf s v D x n G).
 Qed.
 
 (* ---- linking a detached object into the collection *)
@@ -853,11 +1002,11 @@ Lemma getn_link_root : forall s k v x,
 Proof. intros. unfold link_root. exact (getn_upd s v x with_mc). Qed.
 
 Lemma SInv_link_root : forall s k v vn, SInv s -> Detached s v ->
-  getn s v = Some vn -> nname vn = k -> is_ali (nkind vn) = false ->
+  getn s v = Some vn -> nname vn = k -> is_ali (nkind vn) = false -> nparent vn = None ->
   SInv (link_root s k v).
 Proof.
-  intros s k v vn HI D Gv Nv Av.
-  destruct (d_node s v D) as [vn0 [Gv0 [Pv Mv]]]. rewrite Gv in Gv0. inversion Gv0; subst vn0. clear Gv0.
+  intros s k v vn HI D Gv Nv Av Pv.
+  destruct (d_node s v D) as [vn0 [Gv0 Mv]]. rewrite Gv in Gv0. inversion Gv0; subst vn0. clear Gv0.
   constructor.
   - intros k' x L. unfold link_root in L. simpl in L. rewrite getn_link_root.
     destruct (String.eqb k' k) eqn:Ek.
@@ -874,11 +1023,7 @@ Proof.
     rewrite <- M0 in L. destruct (s_mem s HI c cn0 k' x G0 L) as [n [Gx [P N]]].
     assert (v <> x) by (intro Hx; rewrite <- Hx in L; exact (d_nomem s v D c cn0 k' G0 L)).
     rewrite getn_link_root. apply Nat.eqb_neq in H. rewrite H. exists n. auto.
-  - intros x n c G P. change (getn (link_root s k v) x = Some n) in G. rewrite getn_link_root in G.
-    destruct (Nat.eqb v x).
-    + destruct (getn s x) as [n0|] eqn:G0; simpl in G; [|discriminate]. inversion G; subst n. simpl in P.
-      eapply (s_par s HI); eauto.
-    + eapply (s_par s HI); eauto.
+  - unfold link_root. simpl. apply wfpar_upd_keep; [intro n; reflexivity | exact (s_par s HI)].
 Qed.
 
 (* ---- unlinking *)
@@ -919,8 +1064,7 @@ Proof.
   - intros c cn' k' x G L. destruct (Hn c cn' G) as [cn [Gc [_ [_ Hm]]]].
     destruct (s_mem s HI c cn k' x Gc (Hm k' x L)) as [n [Gx [P N]]].
     destruct (Hk x n Gx) as [n' [G' [E1 E2]]]. exists n'. unfold npk in E1. inversion E1. repeat split; congruence.
-  - intros x n' c G P. destruct (Hn x n' G) as [n [Gx [E1 _]]]. unfold npk in E1. inversion E1.
-    eapply (s_par s HI); eauto. congruence.
+  - unfold upd_state. simpl. apply wfpar_upd_keep; [intro n; reflexivity | exact (s_par s HI)].
 Qed.
 
 (* ---- locate *)
@@ -1025,41 +1169,41 @@ Proof.
     eapply SInv_update_target_aliases; eauto.
 Qed.
 
+Lemma SInv_write_member_loose : forall s1 c k v vn1 s2, SInv s1 -> Detached s1 v -> getn s1 v = Some vn1 -> nname vn1 = k ->
+  (c = RRoot -> is_ali (nkind vn1) = false /\ nparent vn1 = None) ->
+  (forall i, c = RObj i -> i <> v /\ exists cn, getn s1 i = Some cn) ->
+  write_member s1 c k v = Ok s2 -> SInv s2.
+Proof.
+  intros s1 c k v vn1 s2 HI1 D1 Gv1 Nv Hroot Hobj W.
+  apply write_member_shape in W. destruct c as [|i].
+  - subst s2. destruct (Hroot eq_refl) as [A1 A2]. apply (SInv_link_root s1 k v vn1 HI1 D1 Gv1); auto.
+  - apply (skel_eq_SInv _ _ W). destruct (Hobj i eq_refl) as [Hiv [cn Gi]].
+    apply (SInv_link_obj s1 i cn k v vn1 HI1 D1 Gi Hiv Gv1). exact Nv.
+Qed.
+
 Lemma SInv_set_value_fresh : forall s a r p v vn, SInv s -> Detached s v -> getn s v = Some vn ->
-  r <> RObj v -> nname vn = last p "" -> (r = RRoot -> (exists k, p = [k]) -> is_ali (nkind vn) = false) ->
+  r <> RObj v -> nname vn = last p "" ->
+  (r = RRoot -> (exists k, p = [k]) -> is_ali (nkind vn) = false /\ nparent vn = None) ->
   SInv (fst (set_value s a r p v)).
 Proof.
-  intros s a r p v vn HI D Gv Hr Nv Av. unfold set_value. rewrite Gv.
+  intros s a r p v vn HI D Gv Hr Nv Av. unfold C16_tree.set_value. rewrite Gv.
   destruct (locate s r p) as [[c k]|e] eqn:Lc; [|exact HI].
   destruct (members_r s c) as [ms|e] eqn:M; [|exact HI].
   pose proof (locate_key s p r c k Lc) as Hk.
-  assert (Hpre : forall s1 e1, skel_eq s s1 ->
-     SInv (fst (match e1 with
-                | Some e => (s1, Some e)
-                | None => match write_member s1 c k v with Ok s2 => (s2, None) | Err e => (s1, Some e) end
-                end))).
-  { intros s1 e1 H1. pose proof (skel_eq_SInv s s1 H1 HI) as HI1.
-    destruct e1; simpl; auto.
-    destruct (write_member s1 c k v) as [s2|e] eqn:W; simpl; auto.
-    apply write_member_shape in W.
+  destruct (set_at s a c k ms v) as [s' e] eqn:E. simpl.
+  apply set_at_shape in E. destruct E as [[H1 _]|[s1 [s2 [H1 [W [H2 _]]]]]].
+  - exact (skel_eq_SInv s s' H1 HI).
+  - apply (skel_eq_SInv s2 s' H2).
+    pose proof (skel_eq_SInv s s1 H1 HI) as HI1.
     pose proof (Detached_skel_eq s s1 v H1 D) as D1.
     destruct (skel_eq_node s1 s v vn (skel_eq_sym _ _ H1) Gv) as [vn1 [Gv1 Ev]].
     unfold skel in Ev. inversion Ev as [[E1 E2 E3 E4 E5]].
-    destruct c as [|i].
-    - subst s2. apply locate_root in Lc. destruct Lc as [Er Ep]. subst r p.
-      apply (SInv_link_root s1 k v vn1 HI1 D1 Gv1).
-      + rewrite E1, Nv. reflexivity.
-      + rewrite E2. apply Av; eauto.
-    - apply (skel_eq_SInv _ _ W).
-      pose proof (locate_not_detached s v D p r i k Hr Lc) as Hiv.
-      rewrite (skel_eq_members_r s s1 H1) in M. apply members_r_obj in M. destruct M as [cn [Gi _]].
-      apply (SInv_link_obj s1 i cn k v vn1 HI1 D1 Gi Hiv Gv1). rewrite E1, Nv. symmetry. exact Hk. }
-  destruct a.
-  - destruct (mlookup k ms) as [m|].
-    + pose proof (skel_eq_replace_prelude s m v) as Hp. destruct (replace_prelude s m v) as [s1 e1]. simpl in Hp.
-      exact (Hpre s1 e1 Hp).
-    + exact (Hpre s None (skel_eq_refl s)).
-  - destruct (mlookup k ms); exact (Hpre s None (skel_eq_refl s)).
+    apply (SInv_write_member_loose s1 c k v vn1 s2 HI1 D1 Gv1); auto.
+    + rewrite E1, Nv. symmetry. exact Hk.
+    + intro Ec. subst c. apply locate_root in Lc. destruct Lc as [Er Ep]. subst r p.
+      rewrite E2, E3. apply Av; eauto.
+    + intros i Ec. subst c. split; [exact (locate_not_detached s v D p r i k Hr Lc)|].
+      rewrite (skel_eq_members_r s s1 H1) in M. apply members_r_obj in M. destruct M as [cn [Gi _]]. eauto.
 Qed.
 
 Lemma SInv_del_value : forall s r p, SInv s -> SInv (fst (del_value s r p)).
@@ -1068,6 +1212,94 @@ Proof.
   destruct (locate s r p) as [[c k]|e]; [|exact HI].
   destruct (get_at s c k); [|exact HI].
   destruct c; simpl; [apply SInv_unlink_root | apply SInv_unlink_obj]; exact HI.
+Qed.
+
+(* ---- nothing reachable is a detached node *)
+Lemma get_not_detached : forall s v, Detached s v -> forall p r x, get s r p = Ok x -> x <> v.
+Proof.
+  intros s v D p. induction p as [|k p IH]; intros r x H; [simpl in H; discriminate|].
+  cbn [get] in H. destruct (members_r s r) as [ms|] eqn:M; [|discriminate].
+  destruct (mlookup k ms) as [y|] eqn:L; [|discriminate].
+  destruct p as [|k2 p2].
+  - inversion H; subst y. intro E; subst x. destruct r as [|c].
+    + simpl in M. inversion M; subst. exact (d_noroot s v D k L).
+    + apply members_r_obj in M. destruct M as [n [G [_ E2]]]. subst ms. exact (d_nomem s v D c n k G L).
+  - eapply IH; eauto.
+Qed.
+
+Lemma live_spec : forall s a, live s a = true -> exists p, path_of s a = POk p /\ get s RRoot p = Ok a.
+Proof.
+  intros s a H. unfold live in H. destruct (path_of s a) as [p| |]; try discriminate.
+  destruct (get s RRoot p) as [x|] eqn:G; try discriminate. apply Nat.eqb_eq in H. subst x. eauto.
+Qed.
+
+(* ---- what the discipline says about an alias that comes back *)
+Lemma mentions_lookup : forall v ms k, mlookup k ms = Some v -> mentions v ms = true.
+Proof.
+  intros v ms. induction ms as [|[k' x] r IH]; intros k H; [discriminate|].
+  unfold mlookup in H. simpl in H. unfold mentions. simpl.
+  destruct (String.eqb k k'); [inversion H; subst; rewrite Nat.eqb_refl; reflexivity|].
+  fold (mlookup k r) in H. unfold mentions in IH. rewrite (IH k H). apply orb_true_r.
+Qed.
+
+Lemma forallb_heap : forall (f : node -> bool) s, forallb f (heap s) = true -> forall x n, getn s x = Some n -> f n = true.
+Proof. intros f s H x n G. rewrite forallb_forall in H. apply H. unfold getn in G. eapply nth_error_In; eauto. Qed.
+
+Lemma loose_spec : forall s v, loose s v = true ->
+  (forall k, mlookup k (root s) <> Some v) /\
+  (forall c cn k, getn s c = Some cn -> mlookup k (nmembers cn) <> Some v) /\
+  (forall t tn p, getn s t = Some tn -> ~ In (p, v) (naliases tn)) /\
+  (forall x n, getn s x = Some n -> nparent n <> Some v) /\
+  (forall x n, getn s x = Some n -> ntarget n <> Some v).
+Proof.
+  intros s v H. unfold loose in H. apply andb_true_iff in H. destruct H as [H1 H2].
+  apply negb_true_iff in H1.
+  assert (Hn : forall x n, getn s x = Some n ->
+            mentions v (nmembers n) = false /\ existsb (fun pa => Nat.eqb (snd pa) v) (naliases n) = false /\
+            opt_is v (nparent n) = false /\ opt_is v (ntarget n) = false).
+  { intros x n G. pose proof (forallb_heap _ s H2 x n G) as F. simpl in F.
+    repeat (apply andb_true_iff in F; destruct F as [F ?]).
+    repeat match goal with Q : negb _ = true |- _ => apply negb_true_iff in Q end. auto. }
+  split; [|split; [|split; [|split]]].
+  - intros k L. apply mentions_lookup in L. congruence.
+  - intros c cn k G L. destruct (Hn c cn G) as [F _]. apply mentions_lookup in L. congruence.
+  - intros t tn p G Hin. destruct (Hn t tn G) as [_ [F _]].
+    assert (existsb (fun pa => Nat.eqb (snd pa) v) (naliases tn) = true).
+    { apply existsb_exists. exists (p, v). split; auto. simpl. apply Nat.eqb_refl. }
+    congruence.
+  - intros x n G P. destruct (Hn x n G) as [_ [_ [F _]]]. rewrite P in F. simpl in F. rewrite Nat.eqb_refl in F. discriminate.
+  - intros x n G P. destruct (Hn x n G) as [_ [_ [_ F]]]. rewrite P in F. simpl in F. rewrite Nat.eqb_refl in F. discriminate.
+Qed.
+
+Lemma reattach_ok_spec : forall s r p v, reattach_ok s r p v = true ->
+  exists vn, getn s v = Some vn /\ nkind vn = KAli /\ nmembers vn = [] /\ loose s v = true /\
+             nname vn = last p "" /\ recv_live s r = true /\ ~ (r = RRoot /\ exists k, p = [k]).
+Proof.
+  intros s r p v H. unfold reattach_ok in H.
+  destruct (getn s v) as [vn|] eqn:Gv; [|discriminate].
+  assert (Hb : is_ali (nkind vn) && (match nmembers vn with [] => true | _ :: _ => false end) && loose s v &&
+               String.eqb (last p "") (nname vn) && recv_live s r = true /\ ~ (r = RRoot /\ exists k, p = [k])).
+  { destruct r as [|j].
+    - destruct p as [|k0 [|k1 p2]]; try discriminate; (split; [exact H|]); intros [_ [k E]]; discriminate.
+    - split; [exact H|]. intros [E _]. discriminate. }
+  destruct Hb as [Hb Hroot].
+  repeat (apply andb_true_iff in Hb; destruct Hb as [Hb ?]).
+  exists vn. split; [reflexivity|]. split; [destruct (nkind vn); try discriminate; reflexivity|].
+  split; [destruct (nmembers vn); [reflexivity|discriminate]|]. split; [assumption|].
+  split; [symmetry; apply String.eqb_eq; assumption|]. split; assumption.
+Qed.
+
+Lemma loose_detached : forall s v vn, loose s v = true -> getn s v = Some vn -> nmembers vn = [] -> Detached s v.
+Proof.
+  intros s v vn H Gv Mv. destruct (loose_spec s v H) as [H1 [H2 [_ [H4 _]]]].
+  constructor; auto. exists vn. auto.
+Qed.
+
+Lemma reattach_recv : forall s r p v vn, reattach_ok s r p v = true -> getn s v = Some vn -> r <> RObj v.
+Proof.
+  intros s r p v vn H Gv E. subst r. apply reattach_ok_spec in H.
+  destruct H as [vn0 [Gv0 [_ [Mv [Hl [_ [Lr _]]]]]]]. simpl in Lr. apply live_spec in Lr. destruct Lr as [q [_ Gq]].
+  exact (get_not_detached s v (loose_detached s v vn0 Hl Gv0 Mv) q RRoot v Gq eq_refl).
 Qed.
 
 Lemma top_down_new_root_kind : forall s a r p k t, top_down s (ONew a r p k t) = true ->
@@ -1079,6 +1311,12 @@ Qed.
 Lemma SInv_step : forall s o, SInv s -> top_down s o = true -> SInv (fst (step s o)).
 Proof.
   intros s o HI Htd. destruct o as [k n t|a r p v|a r p k t|a r p|a|a v]; try (simpl in Htd; discriminate); simpl.
+  - (* an alias that was deleted or replaced comes back *)
+    simpl in Htd. pose proof Htd as Hs. apply reattach_ok_spec in Hs.
+    destruct Hs as [vn [Gv [Kv [Mv [Hl [Nv [Lr Hroot]]]]]]].
+    apply (SInv_set_value_fresh s a r p v vn HI (loose_detached s v vn Hl Gv Mv) Gv); auto.
+    + exact (reattach_recv s r p v vn Htd Gv).
+    + intros Hr Hp. exfalso. apply Hroot. auto.
   - destruct (recv_exists s r) eqn:Re; simpl; [|exact HI].
     destruct (alloc s k (last p "") t) as [s1 e] eqn:Al.
     apply alloc_cases in Al. destruct Al as [[E1 E2]|[E1 [nd [E2 [P [M [N [K _]]]]]]]].
@@ -1088,7 +1326,7 @@ Proof.
       * subst s1. apply getn_app_last.
       * destruct r as [|i]; [discriminate|]. simpl in Re. apply Nat.ltb_lt in Re. intro E. inversion E. lia.
       * exact N.
-      * intros Hr Hp. rewrite K. exact (top_down_new_root_kind s a r p k t Htd Hr Hp).
+      * intros Hr Hp. rewrite K. split; [exact (top_down_new_root_kind s a r p k t Htd Hr Hp) | exact P].
   - apply SInv_del_value. exact HI.
   - apply (skel_eq_SInv s); [apply skel_eq_resolve | exact HI].
   - destruct (set_target s a v) as [s'|e] eqn:E; simpl; [|exact HI].
@@ -1324,7 +1562,7 @@ Qed.
 
 Lemma set_target_shape : forall s a v s', set_target s a v = Ok s' ->
   exists vp ap, s' = point_at s a v vp ap /\ a <> v /\ path_of s a = POk ap /\ path_of s v = POk vp /\
-                kind_of s a = Some KAli /\ kind_of s v <> None /\ kind_of s v <> Some KAli.
+                kind_of s a = Some KAli /\ kind_of s v <> None /\ kind_of s v <> Some KAli /\ vp <> ap.
 Proof.
   intros s a v s' H. unfold set_target in H.
   destruct (kind_of s a) as [[| | | |]|] eqn:Ka; try discriminate.
@@ -1332,16 +1570,11 @@ Proof.
   destruct (Nat.eqb v a) eqn:E; try discriminate. apply Nat.eqb_neq in E.
   destruct (path_of s v) as [vp| |] eqn:Pv; try discriminate.
   destruct (path_of s a) as [ap| |] eqn:Pa; try discriminate.
-  destruct (path_eqb vp ap); try discriminate.
+  destruct (path_eqb vp ap) eqn:Ep; try discriminate.
   destruct (is_ali kv) eqn:Av; try discriminate.
   inversion H; subst. exists vp, ap. repeat split; auto; try discriminate.
-  intro K. inversion K; subst kv. discriminate.
-Qed.
-
-Lemma live_spec : forall s a, live s a = true -> exists p, path_of s a = POk p /\ get s RRoot p = Ok a.
-Proof.
-  intros s a H. unfold live in H. destruct (path_of s a) as [p| |]; try discriminate.
-  destruct (get s RRoot p) as [x|] eqn:G; try discriminate. apply Nat.eqb_eq in H. subst x. eauto.
+  - intro K. inversion K; subst kv. discriminate.
+  - intro Q. subst ap. rewrite path_eqb_refl in Ep. discriminate.
 Qed.
 
 Lemma AInv_set_target_live : forall s a v s', SInv s -> AInv s -> live s a = true ->
@@ -1409,19 +1642,6 @@ Proof.
     destruct e; simpl; auto.
 Qed.
 
-(* ---- nothing reachable is a detached node *)
-Lemma get_not_detached : forall s v, Detached s v -> forall p r x, get s r p = Ok x -> x <> v.
-Proof.
-  intros s v D p. induction p as [|k p IH]; intros r x H; [simpl in H; discriminate|].
-  cbn [get] in H. destruct (members_r s r) as [ms|] eqn:M; [|discriminate].
-  destruct (mlookup k ms) as [y|] eqn:L; [|discriminate].
-  destruct p as [|k2 p2].
-  - inversion H; subst y. intro E; subst x. destruct r as [|c].
-    + simpl in M. inversion M; subst. exact (d_noroot s v D k L).
-    + apply members_r_obj in M. destruct M as [n [G [_ E2]]]. subst ms. exact (d_nomem s v D c n k G L).
-  - eapply IH; eauto.
-Qed.
-
 (* ---- building a fresh object keeps the alias invariant *)
 Lemma AInv_app : forall s nd, SInv s -> AInv s -> nparent nd = None -> nmembers nd = [] -> naliases nd = [] ->
   (forall x, ntarget nd = Some x -> kind_of s x <> None) ->
@@ -1431,9 +1651,18 @@ Proof.
   destruct (SInv_app s nd HI P M) as [HI1 D1]. fold s1 in HI1, D1.
   assert (Hold : forall i, i < List.length (heap s) -> getn s1 i = getn s i) by (intros; apply getn_app_lt; auto).
   assert (Hpath : forall a, a < List.length (heap s) -> path_of s1 a = path_of s a).
-  { intros a Ha. symmetry. apply (path_of_ext s s1 (List.length (heap s)) (s_par s HI) (s_par s1 HI1)); auto.
-    - intros i Hi. rewrite Hold by auto. reflexivity.
-    - unfold s1. simpl. rewrite app_length. lia. }
+  { intros a Ha. symmetry.
+    apply (path_of_agree s s1 (fun y => y = List.length (heap s)) (s_par s HI) (s_par s1 HI1)).
+    - intros i Hi. destruct (Nat.lt_ge_cases i (List.length (heap s))) as [Hlt|Hge].
+      + rewrite Hold by auto. reflexivity.
+      + unfold getn, s1. simpl.
+        assert (N1 : nth_error (heap s) i = None) by (apply nth_error_None; lia).
+        assert (N2 : nth_error (heap s ++ [nd]) i = None) by (apply nth_error_None; rewrite app_length; simpl; lia).
+        rewrite N1, N2. reflexivity.
+    - intros x n c G Pn Hc. destruct (s_par s HI) as [rk [He _]]. destruct (He x n c G Pn). lia.
+    - lia.
+    - exact Ha.
+    - unfold s1. simpl. rewrite app_length. simpl. lia. }
   assert (Hkind : forall a, kind_of s a <> None -> kind_of s1 a = kind_of s a /\ a < List.length (heap s)).
   { intros a K. unfold kind_of in *. destruct (getn s a) as [n|] eqn:G; [|simpl in K; congruence].
     pose proof (getn_lt _ _ _ G) as Hlt. rewrite Hold by auto. rewrite G. auto. }
@@ -1549,18 +1778,23 @@ Proof.
   intros s i cn k v vn s'' HI HA D NV Gi Ai Hne Gv Nv [pi Gpi] Hali W.
   set (s' := link_obj s i k v) in *.
   pose proof (SInv_link_obj s i cn k v vn HI D Gi Hne Gv Nv) as HI'. fold s' in HI'.
-  destruct (d_node s v D) as [vn0 [Gv0 [Pv Mv]]]. rewrite Gv in Gv0. inversion Gv0; subst vn0. clear Gv0.
-  pose proof (d_last s v D) as Hlast.
+  destruct (d_node s v D) as [vn0 [Gv0 Mv]]. rewrite Gv in Gv0. inversion Gv0; subst vn0. clear Gv0.
   assert (Hlen : List.length (heap s') = List.length (heap s)).
   { unfold s', link_obj, upd_state. simpl. rewrite !upd_length. reflexivity. }
   assert (Hnode := fun x => link_obj_node s i k v x Hne). fold s' in Hnode.
   assert (Hkind : forall x, kind_of s' x = kind_of s x).
   { intro x. unfold kind_of. destruct (Hnode x) as [f [E F]]. rewrite E. destruct (getn s x) as [n|]; simpl; auto.
     destruct (F n) as [_ [_ [F3 _]]]. rewrite F3. reflexivity. }
-  assert (Hpath : forall x, x < v -> path_of s' x = path_of s x).
-  { intros x Hx. symmetry. apply (path_of_ext s s' v (s_par s HI) (s_par s' HI')); try lia.
-    intros j Hj. destruct (Hnode j) as [f [E F]]. rewrite E. destruct (getn s j) as [n|]; simpl; auto.
-    destruct (F n) as [_ [_ [F3 [F4 F5]]]]. unfold npk. rewrite F3, F4, F5 by lia. reflexivity. }
+  assert (Hpath : forall x, x <> v -> path_of s' x = path_of s x).
+  { intros x Hx. destruct (Nat.lt_ge_cases x (List.length (heap s))) as [Hlt|Hge].
+    - symmetry. apply (path_of_agree s s' (fun y => y = v) (s_par s HI) (s_par s' HI')); try lia; auto.
+      + intros j Hj. destruct (Hnode j) as [f [E F]]. rewrite E. destruct (getn s j) as [n|]; simpl; auto.
+        destruct (F n) as [_ [_ [F3 [F4 F5]]]]. unfold npk. rewrite F3, F4, F5 by auto. reflexivity.
+      + intros y n c G Pn Hc. subst c. exact (d_leaf s v D y n G Pn).
+    - assert (N1 : nth_error (heap s) x = None) by (apply nth_error_None; lia).
+      assert (N2 : nth_error (heap s') x = None) by (apply nth_error_None; lia).
+      unfold path_of. rewrite Hlen.
+      destruct (List.length (heap s)) as [|f0]; [reflexivity|]. cbn [pth]. rewrite N1, N2. reflexivity. }
   assert (Hback : forall p x, get s' RRoot p = Ok x -> x <> v -> get s RRoot p = Ok x).
   { intros p x H Hx. apply (get_backward s s' (fun y => y = v)) with (r := RRoot); [ | | | exact I | exact H | exact Hx].
     - intros k' y L. right. exact L.
@@ -1574,12 +1808,11 @@ Proof.
     - intros j n' Hj G'. subst j. unfold s' in G'. rewrite getn_link_obj in G' by auto. rewrite Nat.eqb_refl in G'.
       rewrite Gv in G'. simpl in G'. inversion G'; subst n'. simpl. exact Mv. }
   assert (Ppi : path_of s i = POk pi) by (apply (retrievable s HI); exact Gpi).
-  assert (Hiv : i < v). { pose proof (getn_lt _ _ _ Gi). lia. }
   assert (Pv' : path_of s' v = POk (pi ++ [k])).
   { assert (Gv' : getn s' v = Some (with_parent (Some i) vn)).
     { unfold s'. rewrite getn_link_obj by auto. rewrite Nat.eqb_refl. rewrite Gv. reflexivity. }
     rewrite (path_of_unfold s' v _ (s_par s' HI') Gv'). unfold node_path. simpl.
-    rewrite (Hpath i Hiv). rewrite Ppi. rewrite Nv. reflexivity. }
+    rewrite (Hpath i Hne). rewrite Ppi. rewrite Nv. reflexivity. }
   assert (Honly : forall x, get s' RRoot (pi ++ [k]) = Ok x -> x = v).
   { intros x H. assert (pi <> []) by (intro; subst pi; simpl in Gpi; discriminate).
     rewrite get_app in H by (auto; discriminate).
@@ -1599,7 +1832,6 @@ Proof.
     destruct (getn s t) as [tn|] eqn:Gt; simpl in G; [|discriminate]. inversion G; subst tn'.
     destruct (F tn) as [F1 _]. rewrite F1 in Hin. destruct (a_key s HA t tn p a Gt Hin) as [Pa Ka].
     assert (a <> v) by (intro; subst a; exact (NV t tn p Gt Hin)).
-    assert (a < v). { unfold kind_of in Ka. destruct (getn s a) eqn:Ga; [|discriminate]. pose proof (getn_lt _ _ _ Ga). lia. }
     rewrite Hpath by auto. rewrite Hkind. auto. }
   assert (Knodup : forall t tn', getn s' t = Some tn' -> NoDup (map fst (naliases tn'))).
   { intros t tn' G. destruct (Hnode t) as [f [E F]]. rewrite E in G.
@@ -1685,7 +1917,7 @@ Lemma AInv_link_root : forall s k v vn, SInv s -> AInv s -> Detached s v ->
   getn s v = Some vn -> ntarget vn = None -> AInv (link_root s k v).
 Proof.
   intros s k v vn HI HA D Gv Tv. set (s' := link_root s k v).
-  destruct (d_node s v D) as [vn0 [Gv0 [Pv Mv]]]. rewrite Gv in Gv0. inversion Gv0; subst vn0. clear Gv0.
+  destruct (d_node s v D) as [vn0 [Gv0 Mv]]. rewrite Gv in Gv0. inversion Gv0; subst vn0. clear Gv0.
   assert (Hnode : forall x, exists f, getn s' x = option_map f (getn s x) /\
              forall n, npk (f n) = npk n /\ naliases (f n) = naliases n /\ ntarget (f n) = ntarget n /\
                        nmembers (f n) = nmembers n).
@@ -1777,62 +2009,158 @@ Proof.
   rewrite M1. destruct (mlookup k ms) as [y|]; [|discriminate]. destruct p; auto.
 Qed.
 
+Lemma write_member_target : forall s c k v s', write_member s c k v = Ok s' ->
+  forall a n, getn s a = Some n -> exists n', getn s' a = Some n' /\ ntarget n' = ntarget n.
+Proof.
+  intros s c k v s' W a n G.
+  assert (Hupd : forall s0 i f, (forall m, ntarget (f m) = ntarget m) -> forall n0, getn s0 a = Some n0 ->
+             exists n', getn (upd_state s0 i f) a = Some n' /\ ntarget n' = ntarget n0).
+  { intros s0 i f Hf n0 G0. rewrite getn_upd. destruct (Nat.eqb i a).
+    - rewrite G0. simpl. eexists. split; [reflexivity|apply Hf].
+    - exists n0. auto. }
+  unfold write_member in W. destruct c as [|i].
+  - inversion W; subst s'. change (mkState (upd (heap s) v with_mc) (mput k v (root s))) with (link_root s k v).
+    rewrite getn_link_root. destruct (Nat.eqb v a).
+    + rewrite G. simpl. eexists. split; reflexivity.
+    + exists n. auto.
+  - destruct (Hupd s i (fun n0 => with_members (mput k v (nmembers n0)) n0) (fun _ => eq_refl) n G) as [n1 [G1 T1]].
+    destruct (Hupd _ v (with_parent (Some i)) (fun _ => eq_refl) n1 G1) as [n2 [G2 T2]].
+    assert (Hend : forall s2, update_target_aliases
+                (upd_state (upd_state s i (fun n0 => with_members (mput k v (nmembers n0)) n0)) v (with_parent (Some i))) v = Ok s2 ->
+              exists n', getn s2 a = Some n' /\ ntarget n' = ntarget n).
+    { intros s2 U. unfold update_target_aliases in U.
+      destruct (getn _ v) as [vn|]; [|inversion U; subst s2; exists n2; split; auto; congruence].
+      destruct (ntarget vn) as [t|]; [|inversion U; subst s2; exists n2; split; auto; congruence].
+      destruct (path_of _ v); inversion U; subst s2; try (exists n2; split; auto; congruence).
+      unfold add_backref. destruct (Hupd _ t (fun tn => with_aliases (aput p v (naliases tn)) tn) (fun _ => eq_refl) n2 G2) as [n3 [G3 T3]].
+      exists n3. split; auto. congruence. }
+    destruct (kind_of s v) as [[| | | |]|]; try (inversion W; subst s'; exists n2; split; auto; congruence).
+    apply Hend. exact W.
+Qed.
+
+Lemma write_member_tpath : forall s c k v s', write_member s c k v = Ok s' ->
+  forall a n, getn s a = Some n -> exists n', getn s' a = Some n' /\ ntpath n' = ntpath n.
+Proof.
+  intros s c k v s' W a n G.
+  assert (Hupd : forall s0 i f, (forall m, ntpath (f m) = ntpath m) -> forall n0, getn s0 a = Some n0 ->
+             exists n', getn (upd_state s0 i f) a = Some n' /\ ntpath n' = ntpath n0).
+  { intros s0 i f Hf n0 G0. rewrite getn_upd. destruct (Nat.eqb i a).
+    - rewrite G0. simpl. eexists. split; [reflexivity|apply Hf].
+    - exists n0. auto. }
+  unfold write_member in W. destruct c as [|i].
+  - inversion W; subst s'. change (mkState (upd (heap s) v with_mc) (mput k v (root s))) with (link_root s k v).
+    rewrite getn_link_root. destruct (Nat.eqb v a).
+    + rewrite G. simpl. eexists. split; reflexivity.
+    + exists n. auto.
+  - destruct (Hupd s i (fun n0 => with_members (mput k v (nmembers n0)) n0) (fun _ => eq_refl) n G) as [n1 [G1 T1]].
+    destruct (Hupd _ v (with_parent (Some i)) (fun _ => eq_refl) n1 G1) as [n2 [G2 T2]].
+    assert (Hend : forall s2, update_target_aliases
+                (upd_state (upd_state s i (fun n0 => with_members (mput k v (nmembers n0)) n0)) v (with_parent (Some i))) v = Ok s2 ->
+              exists n', getn s2 a = Some n' /\ ntpath n' = ntpath n).
+    { intros s2 U. unfold update_target_aliases in U.
+      destruct (getn _ v) as [vn|]; [|inversion U; subst s2; exists n2; split; auto; congruence].
+      destruct (ntarget vn) as [t|]; [|inversion U; subst s2; exists n2; split; auto; congruence].
+      destruct (path_of _ v); inversion U; subst s2; try (exists n2; split; auto; congruence).
+      unfold add_backref. destruct (Hupd _ t (fun tn => with_aliases (aput p v (naliases tn)) tn) (fun _ => eq_refl) n2 G2) as [n3 [G3 T3]].
+      exists n3. split; auto. congruence. }
+    destruct (kind_of s v) as [[| | | |]|]; try (inversion W; subst s'; exists n2; split; auto; congruence).
+    apply Hend. exact W.
+Qed.
+
+Lemma write_member_length : forall s c k v s', write_member s c k v = Ok s' -> List.length (heap s') = List.length (heap s).
+Proof.
+  intros s c k v s' W. apply write_member_shape in W. destruct c as [|i].
+  - subst s'. unfold link_root. simpl. apply upd_length.
+  - rewrite <- (skel_eq_length _ _ W). unfold link_obj, upd_state. simpl. rewrite !upd_length. reflexivity.
+Qed.
+
+Lemma write_member_target_back : forall s c k v s', write_member s c k v = Ok s' ->
+  forall a n', getn s' a = Some n' -> exists n, getn s a = Some n /\ ntarget n = ntarget n'.
+Proof.
+  intros s c k v s' W a n' G'.
+  destruct (getn s a) as [n|] eqn:G.
+  - destruct (write_member_target s c k v s' W a n G) as [n2 [G2 T2]]. exists n. split; auto. congruence.
+  - exfalso. pose proof (getn_lt _ _ _ G') as Hlt. rewrite (write_member_length s c k v s' W) in Hlt.
+    unfold getn in G. apply nth_error_None in G. lia.
+Qed.
+
 Lemma AInv_set_value_fresh : forall s a r p v vn, SInv s -> AInv s -> Detached s v -> NoVal s v ->
   (forall x n, getn s x = Some n -> ntarget n <> Some v) ->
   getn s v = Some vn -> r <> RObj v -> nname vn = last p "" ->
   (forall t, ntarget vn = Some t -> nkind vn = KAli) ->
-  (r = RRoot -> (exists k, p = [k]) -> is_ali (nkind vn) = false) ->
+  (r = RRoot -> (exists k, p = [k]) -> is_ali (nkind vn) = false /\ nparent vn = None) ->
   (r = RRoot \/ exists j, r = RObj j /\ Live s j) ->
   AInv (fst (set_value s a r p v)).
 Proof.
-  intros s a r p v vn HI HA D NV NT Gv Hr Nv Hali Av Lr. unfold set_value. rewrite Gv.
+  intros s a r p v vn HI HA D NV NT Gv Hr Nv Hali Av Lr. unfold C16_tree.set_value. rewrite Gv.
   destruct (locate s r p) as [[c k]|e] eqn:Lc; [|exact HA].
   destruct (members_r s c) as [ms|e] eqn:M; [|exact HA].
   pose proof (locate_key s p r c k Lc) as Hk.
-  assert (Hpost : forall s1 e1, skel_eq s s1 -> AInv s1 -> NoVal s1 v ->
+  (* storing and attaching v in a state with the skeleton of s *)
+  assert (Hpost : forall s1 s2, skel_eq s s1 -> AInv s1 -> NoVal s1 v ->
      option_map ntarget (getn s1 v) = option_map ntarget (getn s v) ->
-     AInv (fst (match e1 with
-                | Some e => (s1, Some e)
-                | None => match write_member s1 c k v with Ok s2 => (s2, None) | Err e => (s1, Some e) end
-                end))).
-  { intros s1 e1 H1 HA1 NV1 T1. pose proof (skel_eq_SInv s s1 H1 HI) as HI1.
-    destruct e1; simpl; auto.
-    destruct (write_member s1 c k v) as [s2|e] eqn:W; simpl; auto.
+     write_member s1 c k v = Ok s2 -> SInv s2 /\ AInv s2).
+  { intros s1 s2 H1 HA1 NV1 T1 W. pose proof (skel_eq_SInv s s1 H1 HI) as HI1.
     pose proof (Detached_skel_eq s s1 v H1 D) as D1.
     destruct (skel_eq_node s1 s v vn (skel_eq_sym _ _ H1) Gv) as [vn1 [Gv1 Ev]].
     unfold skel in Ev. inversion Ev as [[E1 E2 E3 E4 E5]].
     assert (Tv1 : ntarget vn1 = ntarget vn). { rewrite Gv1, Gv in T1. simpl in T1. congruence. }
-    destruct c as [|i].
-    - unfold write_member in W. inversion W; subst s2. fold (link_root s1 k v).
-      apply locate_root in Lc. destruct Lc as [Er Ep]. subst r p.
-      apply (AInv_link_root s1 k v vn1 HI1 HA1 D1 Gv1). rewrite Tv1.
-      destruct (ntarget vn) as [t|] eqn:Tv; auto. exfalso.
-      assert (A : is_ali (nkind vn) = false) by (apply Av; eauto). rewrite (Hali t eq_refl) in A. discriminate.
-    - pose proof (locate_not_detached s v D p r i k Hr Lc) as Hiv.
-      pose proof (locate_live s p r i k Lc Lr) as [pi Gpi].
-      rewrite (skel_eq_members_r s s1 H1) in M. apply members_r_obj in M. destruct M as [cn [Gi [Ai _]]].
-      apply (AInv_link_obj s1 i cn k v vn1 s2 HI1 HA1 D1 NV1 Gi Ai Hiv Gv1); auto.
+    split.
+    - apply (SInv_write_member_loose s1 c k v vn1 s2 HI1 D1 Gv1); auto.
       + rewrite E1, Nv. symmetry. exact Hk.
-      + exists pi. rewrite <- (skel_eq_get s s1 H1). exact Gpi.
-      + intros t Ht. rewrite E2. apply (Hali t). congruence. }
+      + intro Ec. subst c. apply locate_root in Lc. destruct Lc as [Er Ep]. subst r p.
+        rewrite E2, E3. apply Av; eauto.
+      + intros i Ec. subst c. split; [exact (locate_not_detached s v D p r i k Hr Lc)|].
+        pose proof M as M1. rewrite (skel_eq_members_r s s1 H1) in M1. apply members_r_obj in M1.
+        destruct M1 as [cn [Gi _]]. eauto.
+    - destruct c as [|i].
+      + unfold write_member in W. inversion W; subst s2. fold (link_root s1 k v).
+        apply locate_root in Lc. destruct Lc as [Er Ep]. subst r p.
+        apply (AInv_link_root s1 k v vn1 HI1 HA1 D1 Gv1). rewrite Tv1.
+        destruct (ntarget vn) as [t|] eqn:Tv; auto. exfalso.
+        assert (A : is_ali (nkind vn) = false) by (apply Av; eauto). rewrite (Hali t eq_refl) in A. discriminate.
+      + pose proof (locate_not_detached s v D p r i k Hr Lc) as Hiv.
+        pose proof (locate_live s p r i k Lc Lr) as [pi Gpi].
+        pose proof M as M1. rewrite (skel_eq_members_r s s1 H1) in M1. apply members_r_obj in M1.
+        destruct M1 as [cn [Gi [Ai _]]].
+        apply (AInv_link_obj s1 i cn k v vn1 s2 HI1 HA1 D1 NV1 Gi Ai Hiv Gv1); auto.
+        * rewrite E1, Nv. symmetry. exact Hk.
+        * exists pi. rewrite <- (skel_eq_get s s1 H1). exact Gpi.
+        * intros t Ht. rewrite E2. apply (Hali t). congruence. }
   assert (Hnone : AInv (fst (match write_member s c k v with Ok s2 => (s2, None) | Err e => (s, Some e) end))).
-  { exact (Hpost s None (skel_eq_refl s) HA NV eq_refl). }
+  { destruct (write_member s c k v) as [s2|e] eqn:W; simpl; [|exact HA].
+    exact (proj2 (Hpost s s2 (skel_eq_refl s) HA NV eq_refl W)). }
+  unfold C16_tree.set_at.
   destruct a; [|destruct (mlookup k ms); exact Hnone].
   destruct (mlookup k ms) as [m|]; [|exact Hnone].
-  unfold replace_prelude. rewrite Gv.
-  destruct (getn s m) as [mn|] eqn:Gm; [|exact HA].
-  destruct (is_ali (nkind mn)); [exact Hnone|].
-  destruct (Nat.eqb m v); [exact HA|].
-  destruct (is_mod (nkind mn) && is_ali (nkind vn)); [exact HA|].
-  pose proof (skel_eq_retarget_all (map snd (naliases mn)) s v) as HS.
-  pose proof (retarget_all_frame v (map snd (naliases mn)) s NV) as [NV2 T2].
-  assert (HA2 : AInv (fst (retarget_all s (map snd (naliases mn)) v))).
-  { apply retarget_all_AInv; auto.
-    - exact (a_nodup s HA m mn Gm).
-    - intros p0 a0 Hin. exact (proj1 (a_key s HA m mn p0 a0 Gm Hin)).
-    - intros x n Gx Tx. exfalso. exact (NT x n Gx Tx). }
-  destruct (retarget_all s (map snd (naliases mn)) v) as [s1 e1]. simpl in *.
-  exact (Hpost s1 e1 HS HA2 NV2 T2).
+  destruct (replace_probe s m v); [exact HA|].
+  (* the re-targeting loop from a state that satisfies both invariants and in which nobody points at v *)
+  assert (Hloop : forall s0, SInv s0 -> AInv s0 -> (forall x n, getn s0 x = Some n -> ntarget n <> Some v) ->
+            AInv (fst (retarget_all s0 (repl_aliases s0 m) v))).
+  { intros s0 HI0 HA0 NT0. unfold repl_aliases.
+    destruct (getn s0 m) as [mn|] eqn:Gm; [|exact HA0].
+    destruct (is_ali (nkind mn)); [exact HA0|].
+    apply retarget_all_AInv; auto.
+    - exact (a_nodup s0 HA0 m mn Gm).
+    - intros p0 a0 Hin. exact (proj1 (a_key s0 HA0 m mn p0 a0 Gm Hin)).
+    - intros x n Gx Tx. exfalso. exact (NT0 x n Gx Tx). }
+  destruct ab.
+  - assert (Hgo : AInv (fst (match write_member s c k v with
+                             | Err e => (s, Some e)
+                             | Ok s1 => retarget_all s1 (repl_aliases s1 m) v end))).
+    { destruct (write_member s c k v) as [s1|e] eqn:W; [|exact HA].
+      destruct (Hpost s s1 (skel_eq_refl s) HA NV eq_refl W) as [HI1 HA1].
+      apply Hloop; auto.
+      intros x n' G' T'. destruct (write_member_target_back s c k v s1 W x n' G') as [n [G T]].
+      apply (NT x n G). congruence. }
+    destruct (kind_of s v) as [[| | | |]|]; try exact Hgo.
+    destruct (repl_aliases s m); [exact Hgo | exact HA].
+  - pose proof (Hloop s HI HA NT) as HA2.
+    assert (HS : skel_eq s (fst (retarget_all s (repl_aliases s m) v))) by apply skel_eq_retarget_all.
+    pose proof (retarget_all_frame v (repl_aliases s m) s NV) as [NV2 T2].
+    destruct (retarget_all s (repl_aliases s m) v) as [s1 [e1|]]; simpl in *; [exact HA2|].
+    destruct (write_member s1 c k v) as [s2|e] eqn:W; simpl; [|exact HA2].
+    exact (proj2 (Hpost s1 s2 HS HA2 NV2 T2 W)).
 Qed.
 
 (* ================================================================ F. every top-down operation keeps both invariants *)
@@ -1853,6 +2181,14 @@ Qed.
 Lemma AInv_step : forall s o, SInv s -> AInv s -> top_down s o = true -> AInv (fst (step s o)).
 Proof.
   intros s o HI HA Htd. destruct o as [k n t|a r p v|a r p k t|a r p|a|a v]; try (simpl in Htd; discriminate); simpl.
+  - (* an alias that was deleted or replaced comes back *)
+    simpl in Htd. pose proof Htd as Hs. apply reattach_ok_spec in Hs.
+    destruct Hs as [vn [Gv [Kv [Mv [Hl [Nv [Lr Hroot]]]]]]].
+    destruct (loose_spec s v Hl) as [_ [_ [NV [_ NT]]]].
+    apply (AInv_set_value_fresh s a r p v vn HI HA (loose_detached s v vn Hl Gv Mv)); auto.
+    + exact (reattach_recv s r p v vn Htd Gv).
+    + intros Hr Hp. exfalso. apply Hroot. auto.
+    + apply recv_live_spec. exact Lr.
   - destruct (recv_exists s r) eqn:Re; simpl; [|exact HA].
     destruct (alloc s k (last p "") t) as [s1 e] eqn:Al.
     apply alloc_cases in Al. destruct Al as [[E1 E2]|[E1 [nd [E2 [P [M [N [K [AL T]]]]]]]]].
@@ -1881,7 +2217,7 @@ Proof.
            apply getn_lt in Gx. lia.
       * destruct r as [|i]; [discriminate|]. simpl in Re. apply Nat.ltb_lt in Re. intro E. inversion E. lia.
       * intros t0 Ht. rewrite K. exact (proj1 (T t0 Ht)).
-      * intros Hr Hp. rewrite K. exact (top_down_new_root_kind s a r p k t Htd Hr Hp).
+      * intros Hr Hp. rewrite K. split; [exact (top_down_new_root_kind s a r p k t Htd Hr Hp) | exact P].
       * pose proof (top_down_new_recv s a r p k t Htd) as Lr. apply recv_live_spec in Lr.
         destruct Lr as [Lr|[j [Lr [pj Gj]]]]; [left; exact Lr|]. right. exists j. split; auto.
         exists pj. subst s1. apply get_forward_app. exact Gj.
@@ -1924,7 +2260,7 @@ Qed.
 
 Theorem backref_listed_modulo_known : forall ops, known_gap ops = false -> Backref (run init ops).
 Proof.
-  intros ops H. apply inv_backref. apply inv_reachable. unfold known_gap in H. apply negb_false_iff in H. exact H.
+  intros ops H. apply inv_backref. apply inv_reachable. unfold C16_tree.known_gap in H. apply negb_false_iff in H. exact H.
 Qed.
 
 (* ================================================================ G. the known gap: bottom-up construction *)
@@ -1965,12 +2301,12 @@ Definition sample_top_down : list op :=
     ODel Consumer RRoot ["m"; "C"; "al"] ].
 
 Example sample_is_top_down : all_top_down init sample_top_down = true.
-Proof. vm_compute. reflexivity. Qed.
+Proof. destruct ab; vm_compute; reflexivity. Qed.
 
 Example sample_alias_followed :
   option_map ntarget (getn (run init (firstn 6 sample_top_down)) 3) = Some (Some 4) /\
   option_map naliases (getn (run init (firstn 6 sample_top_down)) 4) = Some [(["m"; "C"; "al"], 3)].
-Proof. vm_compute. split; reflexivity. Qed.
+Proof. destruct ab; vm_compute; split; reflexivity. Qed.
 
 (* ================================================================ H. dotted string = tuple of names *)
 
@@ -2050,41 +2386,48 @@ Proof.
   - destruct (is_ali kv); discriminate.
 Qed.
 
+(* an alias that points at v keeps doing so through the loop, and its target_path is v's path while the loop runs *)
 Lemma retarget_all_keeps : forall v als s a,
-  (exists n, getn s a = Some n /\ ntarget n = Some v) ->
-  exists n, getn (fst (retarget_all s als v)) a = Some n /\ ntarget n = Some v.
+  (exists n, getn s a = Some n /\ ntarget n = Some v /\ path_of s v = POk (ntpath n)) ->
+  exists n, getn (fst (retarget_all s als v)) a = Some n /\ ntarget n = Some v /\
+            path_of (fst (retarget_all s als v)) v = POk (ntpath n).
 Proof.
   intros v als. induction als as [|a0 r IH]; intros s a H; simpl; [exact H|].
   destruct (set_target s a0 v) as [s'|e] eqn:E.
-  - apply IH. apply set_target_shape in E. destruct E as [vp [ap [Es [Hne _]]]]. subst s'.
-    destruct H as [n [G T]]. rewrite getn_point_at by auto.
+  - apply IH. pose proof (skel_eq_set_target s a0 v s' E) as HS.
+    apply set_target_shape in E. destruct E as [vp [ap [Es [Hne [_ [Pv _]]]]]]. subst s'.
+    rewrite <- (skel_eq_path s _ HS).
+    destruct H as [n [G [T TP0]]]. rewrite getn_point_at by auto.
     destruct (Nat.eqb a v) eqn:E1.
-    + apply Nat.eqb_eq in E1. subst a. rewrite G. simpl. eexists. split; [reflexivity|]. exact T.
+    + apply Nat.eqb_eq in E1. subst a. rewrite G. simpl. eexists. split; [reflexivity|]. split; [exact T|exact TP0].
     + destruct (Nat.eqb a a0) eqn:E2.
-      * apply Nat.eqb_eq in E2. subst a. rewrite G. simpl. eexists. split; [reflexivity|]. reflexivity.
+      * apply Nat.eqb_eq in E2. subst a. rewrite G. simpl. eexists. split; [reflexivity|]. split; [reflexivity|exact Pv].
       * exists n. auto.
   - destruct e; simpl; auto.
 Qed.
 
-Lemma retarget_all_sets : forall v als s s2,
+Lemma retarget_all_sets : forall v als s s2 a,
   retarget_all s als v = (s2, None) ->
-  (forall a s0, In a als -> skel_eq s s0 -> set_target s0 a v <> Err ECyclic) ->
-  forall a, In a als -> exists n, getn s2 a = Some n /\ ntarget n = Some v.
+  (forall s0, skel_eq s s0 -> set_target s0 a v <> Err ECyclic) ->
+  In a als -> exists n, getn s2 a = Some n /\ ntarget n = Some v /\ path_of s2 v = POk (ntpath n).
 Proof.
-  intros v als. induction als as [|a0 r IH]; intros s s2 H NC a Hin; [contradiction|].
+  intros v als. induction als as [|a0 r IH]; intros s s2 a H NC Hin; [contradiction|].
   simpl in H. destruct (set_target s a0 v) as [s'|e] eqn:E.
   - pose proof (skel_eq_set_target s a0 v s' E) as HS.
     destruct Hin as [Ea|Hin].
     + subst a0. pose proof (retarget_all_keeps v r s' a) as K. rewrite H in K. simpl in K. apply K.
-      apply set_target_shape in E. destruct E as [vp [ap [Es [Hne [_ [_ [Ka _]]]]]]]. subst s'.
+      apply set_target_shape in E. destruct E as [vp [ap [Es [Hne [_ [Pv [Ka _]]]]]]]. 
+      rewrite <- (skel_eq_path s s' HS). subst s'.
       rewrite getn_point_at by auto. assert (Eav : Nat.eqb a v = false) by (apply Nat.eqb_neq; auto).
       rewrite Eav, Nat.eqb_refl.
       unfold kind_of in Ka. destruct (getn s a) as [n|] eqn:G; [|discriminate].
-      simpl. eexists. split; reflexivity.
-    + apply (IH s' s2 H); auto.
-      intros a1 s0 Hin1 HS0. apply NC; [right; exact Hin1|]. eapply skel_eq_trans; eauto.
+      simpl. eexists. split; [reflexivity|]. split; [reflexivity|exact Pv].
+    + apply (IH s' s2 a H); auto.
+      intros s0 HS0. apply NC. eapply skel_eq_trans; eauto.
   - destruct e; try discriminate.
-    exfalso. exact (NC a0 s (or_introl eq_refl) (skel_eq_refl s) E).
+    destruct Hin as [Ea|Hin].
+    + subst a0. exfalso. exact (NC s (skel_eq_refl s) E).
+    + apply (IH s s2 a H); auto.
 Qed.
 
 Lemma members_r_forward_app : forall s nd c ms, members_r s c = Ok ms ->
@@ -2102,85 +2445,6 @@ Proof.
   cbn [locate]. rewrite (members_r_forward_app s nd r ms M).
   destruct p as [|k1 p1]; [exact H|].
   destruct (mlookup k0 ms) as [x|]; [|discriminate]. apply IH. exact H.
-Qed.
-
-Lemma write_member_target : forall s c k v s', write_member s c k v = Ok s' ->
-  forall a n, getn s a = Some n -> exists n', getn s' a = Some n' /\ ntarget n' = ntarget n.
-Proof.
-  intros s c k v s' W a n G.
-  assert (Hupd : forall s0 i f, (forall m, ntarget (f m) = ntarget m) -> forall n0, getn s0 a = Some n0 ->
-             exists n', getn (upd_state s0 i f) a = Some n' /\ ntarget n' = ntarget n0).
-  { intros s0 i f Hf n0 G0. rewrite getn_upd. destruct (Nat.eqb i a).
-    - rewrite G0. simpl. eexists. split; [reflexivity|apply Hf].
-    - exists n0. auto. }
-  unfold write_member in W. destruct c as [|i].
-  - inversion W; subst s'. change (mkState (upd (heap s) v with_mc) (mput k v (root s))) with (link_root s k v).
-    rewrite getn_link_root. destruct (Nat.eqb v a).
-    + rewrite G. simpl. eexists. split; reflexivity.
-    + exists n. auto.
-  - destruct (Hupd s i (fun n0 => with_members (mput k v (nmembers n0)) n0) (fun _ => eq_refl) n G) as [n1 [G1 T1]].
-    destruct (Hupd _ v (with_parent (Some i)) (fun _ => eq_refl) n1 G1) as [n2 [G2 T2]].
-    assert (Hend : forall s2, update_target_aliases
-                (upd_state (upd_state s i (fun n0 => with_members (mput k v (nmembers n0)) n0)) v (with_parent (Some i))) v = Ok s2 ->
-              exists n', getn s2 a = Some n' /\ ntarget n' = ntarget n).
-    { intros s2 U. unfold update_target_aliases in U.
-      destruct (getn _ v) as [vn|]; [|inversion U; subst s2; exists n2; split; auto; congruence].
-      destruct (ntarget vn) as [t|]; [|inversion U; subst s2; exists n2; split; auto; congruence].
-      destruct (path_of _ v); inversion U; subst s2; try (exists n2; split; auto; congruence).
-      unfold add_backref. destruct (Hupd _ t (fun tn => with_aliases (aput p v (naliases tn)) tn) (fun _ => eq_refl) n2 G2) as [n3 [G3 T3]].
-      exists n3. split; auto. congruence. }
-    destruct (kind_of s v) as [[| | | |]|]; try (inversion W; subst s'; exists n2; split; auto; congruence).
-    apply Hend. exact W.
-Qed.
-
-Theorem alias_follows_replacement : forall s r p k t s' c key m,
-  Inv s -> step s (ONew Producer r p k t) = (s', None) ->
-  locate s r p = Ok (c, key) -> get_at s c key = Ok m -> kind_of s m <> Some KAli ->
-  forall q a n, get s RRoot q = Ok a -> getn s a = Some n -> ntarget n = Some m ->
-  exists n', getn s' a = Some n' /\ ntarget n' = Some (List.length (heap s)).
-Proof.
-  intros s r p k t s' c key m [HI HA] H Lc Gm Km q a n Gq Ga Ta.
-  simpl in H. destruct (recv_exists s r); simpl in H; [|discriminate].
-  destruct (alloc s k (last p "") t) as [s1 e] eqn:Al.
-  apply alloc_cases in Al. destruct Al as [[E1 E2]|[E1 [nd [E2 [P [M [N [K [AL T]]]]]]]]].
-  { destruct e; [discriminate|congruence]. }
-  subst e. set (v := List.length (heap s)) in *.
-  destruct (SInv_app s nd HI P M) as [HI1 D1]. rewrite <- E2 in HI1, D1. fold v in D1.
-  assert (Gv : getn s1 v = Some nd) by (subst s1; apply getn_app_last).
-  unfold set_value in H. rewrite Gv in H.
-  assert (Lc1 : locate s1 r p = Ok (c, key)) by (subst s1; apply locate_forward_app; exact Lc).
-  rewrite Lc1 in H.
-  unfold get_at in Gm. destruct (members_r s c) as [ms|] eqn:Mc; [|discriminate].
-  destruct (mlookup key ms) as [m0|] eqn:Lm; [|discriminate]. inversion Gm; subst m0. clear Gm.
-  assert (Mc1 : members_r s1 c = Ok ms) by (subst s1; apply members_r_forward_app; exact Mc).
-  rewrite Mc1, Lm in H.
-  (* the replaced member exists *)
-  destruct (a_back s HA q a n m Gq Ga Ta) as [mn [Gmn Lk]].
-  assert (Gmn1 : getn s1 m = Some mn).
-  { subst s1. rewrite getn_app_lt by (eapply getn_lt; eauto). exact Gmn. }
-  unfold replace_prelude in H. rewrite Gmn1, Gv in H.
-  assert (Am : is_ali (nkind mn) = false).
-  { unfold kind_of in Km. rewrite Gmn in Km. simpl in Km. destruct (nkind mn); auto. congruence. }
-  rewrite Am in H.
-  destruct (Nat.eqb m v); [discriminate|].
-  destruct (is_mod (nkind mn) && is_ali (nkind nd)); [discriminate|].
-  destruct (retarget_all s1 (map snd (naliases mn)) v) as [s2 e1] eqn:R.
-  destruct e1 as [e1|]; [discriminate|].
-  destruct (write_member s2 c key v) as [s3|e3] eqn:W; [|discriminate]. inversion H; subst s3. clear H.
-  assert (Hin : In a (map snd (naliases mn))).
-  { apply alookup_In in Lk. apply in_map_iff. exists (q, a). auto. }
-  assert (Ha2 : exists n2, getn s2 a = Some n2 /\ ntarget n2 = Some v).
-  { apply (retarget_all_sets v (map snd (naliases mn)) s1 s2 R); auto.
-    intros a0 s0 Hin0 HS0. apply set_target_not_cyclic.
-    - apply in_map_iff in Hin0. destruct Hin0 as [[p0 a1] [E Hin0]]. simpl in E. subst a1.
-      destruct (a_key s HA m mn p0 a0 Gmn Hin0) as [_ Ka0]. unfold kind_of in Ka0.
-      destruct (getn s a0) eqn:G0; [|discriminate]. apply getn_lt in G0. unfold v. lia.
-    - intros vp Pv. rewrite <- (skel_eq_path s1 s0 HS0) in Pv.
-      rewrite (path_of_unfold s1 v nd (s_par s1 HI1) Gv) in Pv. unfold node_path in Pv. rewrite P in Pv.
-      destruct (is_ali (nkind nd)); [discriminate|]. inversion Pv. reflexivity. }
-  destruct Ha2 as [n2 [G2 T2]].
-  destruct (write_member_target s2 c key v s' W a n2 G2) as [n' [G' T']].
-  exists n'. split; auto. congruence.
 Qed.
 
 (* ================================================================ J. refinement to the reference dictionary path -> object *)
@@ -2388,26 +2652,14 @@ Proof.
 Qed.
 
 Lemma set_value_ok_shape : forall s a r p v s', set_value s a r p v = (s', None) ->
-  exists c k s2, locate s r p = Ok (c, k) /\ skel_eq s s2 /\ write_member s2 c k v = Ok s'.
+  exists c k s2 s3, locate s r p = Ok (c, k) /\ skel_eq s s2 /\ write_member s2 c k v = Ok s3 /\ skel_eq s3 s'.
 Proof.
-  intros s a r p v s' H. unfold set_value in H.
+  intros s a r p v s' H. unfold C16_tree.set_value in H.
   destruct (getn s v); [|discriminate].
   destruct (locate s r p) as [[c k]|e] eqn:Lc; [|discriminate].
   destruct (members_r s c) as [ms|e]; [|discriminate].
-  assert (Hpost : forall s1 e1, skel_eq s s1 ->
-     match e1 with
-     | Some e => (s1, Some e)
-     | None => match write_member s1 c k v with Ok s2 => (s2, None) | Err e => (s1, Some e) end
-     end = (s', None) -> exists c0 k0 s2, Ok (c, k) = Ok (c0, k0) /\ skel_eq s s2 /\ write_member s2 c0 k0 v = Ok s').
-  { intros s1 e1 H1 H2. destruct e1; [discriminate|].
-    destruct (write_member s1 c k v) as [s2|e] eqn:W; [|discriminate]. inversion H2; subst s2.
-    exists c, k, s1. auto. }
-  destruct a.
-  - destruct (mlookup k ms) as [m|].
-    + pose proof (skel_eq_replace_prelude s m v) as Hp. destruct (replace_prelude s m v) as [s1 e1]. simpl in Hp.
-      exact (Hpost s1 e1 Hp H).
-    + exact (Hpost s None (skel_eq_refl s) H).
-  - destruct (mlookup k ms); exact (Hpost s None (skel_eq_refl s) H).
+  apply set_at_shape in H. destruct H as [[_ Hn]|[s1 [s2 [H1 [W [H2 _]]]]]]; [congruence|].
+  exists c, k, s1, s2. auto.
 Qed.
 
 Lemma only_entry_link_obj : forall s i cn k v vn, getn s i = Some cn -> i <> v -> getn s v = Some vn ->
@@ -2436,6 +2688,44 @@ Proof.
     + exists n. repeat split; auto.
 Qed.
 
+(* what storing a detached object v in the entry that the absolute path P designates does to lookups *)
+Lemma link_facts : forall s2 P c key v vn2 s3, SInv s2 -> Detached s2 v -> getn s2 v = Some vn2 ->
+  locate s2 RRoot P = Ok (c, key) -> write_member s2 c key v = Ok s3 ->
+  exists s3', skel_eq s3' s3 /\ only_entry_changed s2 s3' c key /\
+    (forall p x, get s3' RRoot p = Ok x -> x <> v -> get s2 RRoot p = Ok x) /\
+    get s3' RRoot P = Ok v /\
+    (forall q', q' <> [] -> exists e, get s3' (RObj v) q' = Err e).
+Proof.
+  intros s2 P c key v vn2 s3 HI2 D2 Gv2 Lc W.
+  destruct (d_node s2 v D2) as [vn0 [Gv0 Mv2]]. rewrite Gv2 in Gv0. inversion Gv0; subst vn0. clear Gv0.
+  pose proof (locate_entry_path s2 P c key Lc) as EP.
+  apply write_member_shape in W. destruct c as [|i].
+  - subst s3. exists (link_root s2 key v). split; [apply skel_eq_refl|]. split; [apply only_entry_link_root|].
+    split; [intros p x; apply (get_backward_link_root s2 key v vn2 Gv2 Mv2)|]. split.
+    + simpl in EP. subst P. cbn [get]. simpl. rewrite mlookup_put_same. reflexivity.
+    + intros q' Hq'. destruct q' as [|k1 q1]; [congruence|]. cbn [get]. simpl.
+      rewrite getn_link_root, Nat.eqb_refl, Gv2. simpl.
+      destruct (is_ali (nkind vn2)); [eexists; reflexivity|]. rewrite Mv2. simpl. eexists; reflexivity.
+  - pose proof (locate_not_detached s2 v D2 P RRoot i key) as Hiv.
+    assert (Hne : i <> v) by (apply Hiv; [discriminate|exact Lc]).
+    destruct (locate_members s2 P RRoot (RObj i) key Lc) as [ms Mi]. apply members_r_obj in Mi.
+    destruct Mi as [cn [Gi [Ai _]]].
+    exists (link_obj s2 i key v). split; [exact W|]. split; [eapply only_entry_link_obj; eauto|].
+    split; [intros p x; apply (get_backward_link_obj s2 i cn key v vn2 Gi Hne Gv2 Mv2)|]. split.
+    + simpl in EP. destruct EP as [pi [Gpi EPP]]. subst P.
+      assert (pi <> []) by (intro; subst pi; simpl in Gpi; discriminate).
+      rewrite get_app by (auto; discriminate).
+      rewrite (get_forward s2 (link_obj s2 i key v) (RObj i) key (pi ++ [key]) HI2
+                 (only_entry_link_obj s2 i cn key v vn2 Gi Hne Gv2) (ex_intro _ pi (conj Gpi eq_refl)) pi i Gpi
+                 (is_prefix_shorter pi key)).
+      cbn [get]. simpl. rewrite getn_link_obj by auto.
+      assert (E : Nat.eqb i v = false) by (apply Nat.eqb_neq; auto). rewrite E, Nat.eqb_refl, Gi. simpl.
+      rewrite Ai. rewrite mlookup_put_same. reflexivity.
+    + intros q' Hq'. destruct q' as [|k1 q1]; [congruence|]. cbn [get]. simpl.
+      rewrite getn_link_obj by auto. rewrite Nat.eqb_refl, Gv2. simpl.
+      destruct (is_ali (nkind vn2)); [eexists; reflexivity|]. rewrite Mv2. simpl. eexists; reflexivity.
+Qed.
+
 Theorem refines_dict_new : forall s a P k t s', Inv s -> top_down s (ONew a RRoot P k t) = true ->
   step s (ONew a RRoot P k t) = (s', None) ->
   forall q, dict_of s' q = dict_set P (List.length (heap s)) (dict_of s) q.
@@ -2449,43 +2739,15 @@ Proof.
   { destruct e; [discriminate|congruence]. }
   subst e. set (v := List.length (heap s)) in *.
   destruct (SInv_app s nd HI Pn M) as [HI1 D1]. rewrite <- E2 in HI1, D1. fold v in D1.
-  apply set_value_ok_shape in H. destruct H as [c [key [s2 [Lc [HS W]]]]].
+  apply set_value_ok_shape in H. destruct H as [c [key [s2 [s3w [Lc [HS [W HSw]]]]]]].
   pose proof (skel_eq_SInv s1 s2 HS HI1) as HI2.
   pose proof (Detached_skel_eq s1 s2 v HS D1) as D2.
-  destruct (d_node s2 v D2) as [vn2 [Gv2 [Pv2 Mv2]]].
+  destruct (d_node s2 v D2) as [vn2 [Gv2 Mv2]].
   rewrite (skel_eq_locate s1 s2 HS) in Lc.
   pose proof (locate_entry_path s2 P c key Lc) as EP.
   assert (PneE : P <> []) by (intro; subst P; simpl in Lc; discriminate).
-  (* s3: the linked state, up to the skeleton *)
-  assert (exists s3, skel_eq s3 s' /\ only_entry_changed s2 s3 c key /\
-            (forall p x, get s3 RRoot p = Ok x -> x <> v -> get s2 RRoot p = Ok x) /\
-            get s3 RRoot P = Ok v /\
-            (forall q', q' <> [] -> exists e, get s3 (RObj v) q' = Err e)) as [s3 [HS3 [OE [BW [GP GV]]]]].
-  { apply write_member_shape in W. destruct c as [|i].
-    - subst s'. exists (link_root s2 key v). split; [apply skel_eq_refl|]. split; [apply only_entry_link_root|].
-      split; [intros p x; apply (get_backward_link_root s2 key v vn2 Gv2 Mv2)|]. split.
-      + simpl in EP. subst P. cbn [get]. simpl. rewrite mlookup_put_same. reflexivity.
-      + intros q' Hq'. destruct q' as [|k1 q1]; [congruence|]. cbn [get]. simpl.
-        rewrite getn_link_root, Nat.eqb_refl, Gv2. simpl.
-        destruct (is_ali (nkind vn2)); [eexists; reflexivity|]. rewrite Mv2. simpl. eexists; reflexivity.
-    - pose proof (locate_not_detached s2 v D2 P RRoot i key) as Hiv.
-      assert (Hne : i <> v) by (apply Hiv; [discriminate|exact Lc]).
-      destruct (locate_members s2 P RRoot (RObj i) key Lc) as [ms Mi]. apply members_r_obj in Mi.
-      destruct Mi as [cn [Gi [Ai _]]].
-      exists (link_obj s2 i key v). split; [exact W|]. split; [eapply only_entry_link_obj; eauto|].
-      split; [intros p x; apply (get_backward_link_obj s2 i cn key v vn2 Gi Hne Gv2 Mv2)|]. split.
-      + simpl in EP. destruct EP as [pi [Gpi EPP]]. subst P.
-        assert (pi <> []) by (intro; subst pi; simpl in Gpi; discriminate).
-        rewrite get_app by (auto; discriminate).
-        rewrite (get_forward s2 (link_obj s2 i key v) (RObj i) key (pi ++ [key]) HI2
-                   (only_entry_link_obj s2 i cn key v vn2 Gi Hne Gv2) (ex_intro _ pi (conj Gpi eq_refl)) pi i Gpi
-                   (is_prefix_shorter pi key)).
-        cbn [get]. simpl. rewrite getn_link_obj by auto.
-        assert (E : Nat.eqb i v = false) by (apply Nat.eqb_neq; auto). rewrite E, Nat.eqb_refl, Gi. simpl.
-        rewrite Ai. rewrite mlookup_put_same. reflexivity.
-      + intros q' Hq'. destruct q' as [|k1 q1]; [congruence|]. cbn [get]. simpl.
-        rewrite getn_link_obj by auto. rewrite Nat.eqb_refl, Gv2. simpl.
-        destruct (is_ali (nkind vn2)); [eexists; reflexivity|]. rewrite Mv2. simpl. eexists; reflexivity. }
+  destruct (link_facts s2 P c key v vn2 s3w HI2 D2 Gv2 Lc W) as [s3 [HS3w [OE [BW [GP GV]]]]].
+  assert (HS3 : skel_eq s3 s') by (eapply skel_eq_trans; eauto).
   pose proof (skel_eq_SInv s' s3 (skel_eq_sym _ _ HS3) HI') as HI3.
   assert (Hs' : forall p, get s' RRoot p = get s3 RRoot p) by (intro p; symmetry; apply skel_eq_get; exact HS3).
   assert (Hs2 : forall p x, get s2 RRoot p = Ok x <-> get s RRoot p = Ok x).
@@ -2508,38 +2770,402 @@ Proof.
       * apply dict_agree; intros x G; apply Hs2; exact G.
 Qed.
 
-Lemma set_value_err_skel : forall s a r p v s' e, set_value s a r p v = (s', Some e) -> skel_eq s s'.
+(* a rejected set_member / __setitem__ leaves the skeleton alone -- when the aliases are re-targeted BEFORE the member is
+   stored.  In the other order an exception raised by the re-targeting loop comes after the member was stored. *)
+Lemma set_value_err_skel : forall s a r p v s' e, ab = false -> set_value s a r p v = (s', Some e) -> skel_eq s s'.
 Proof.
-  intros s a r p v s' e H. unfold set_value in H.
+  intros s a r p v s' e Hab H. unfold C16_tree.set_value in H.
   destruct (getn s v); [|inversion H; apply skel_eq_refl].
   destruct (locate s r p) as [[c k]|e0]; [|inversion H; apply skel_eq_refl].
   destruct (members_r s c) as [ms|e0]; [|inversion H; apply skel_eq_refl].
-  assert (Hpost : forall s1 e1, skel_eq s s1 ->
-     match e1 with
-     | Some e => (s1, Some e)
-     | None => match write_member s1 c k v with Ok s2 => (s2, None) | Err e => (s1, Some e) end
-     end = (s', Some e) -> skel_eq s s').
-  { intros s1 e1 H1 H2. destruct e1; [inversion H2; subst; exact H1|].
-    destruct (write_member s1 c k v); inversion H2; subst. exact H1. }
-  destruct a.
-  - destruct (mlookup k ms) as [m|].
-    + pose proof (skel_eq_replace_prelude s m v) as Hp. destruct (replace_prelude s m v) as [s1 e1]. simpl in Hp.
-      exact (Hpost s1 e1 Hp H).
-    + exact (Hpost s None (skel_eq_refl s) H).
-  - destruct (mlookup k ms); exact (Hpost s None (skel_eq_refl s) H).
+  apply set_at_shape in H. destruct H as [[H1 _]|[s1 [s2 [H1 [W [H2 He]]]]]]; [exact H1|].
+  destruct He; congruence.
 Qed.
 
-(* a rejected insertion leaves the dictionary as it was *)
-Theorem refines_dict_new_rejected : forall s a r P k t s' e, Inv s -> step s (ONew a r P k t) = (s', Some e) ->
+(* a rejected insertion leaves the dictionary as it was (stated for the order "re-target, then store": see above) *)
+Theorem refines_dict_new_rejected : forall s a r P k t s' e, ab = false -> Inv s -> step s (ONew a r P k t) = (s', Some e) ->
   forall q, dict_of s' q = dict_of s q.
 Proof.
-  intros s a r P k t s' e [HI _] H q. simpl in H.
+  intros s a r P k t s' e Hab [HI _] H q. simpl in H.
   destruct (recv_exists s r); simpl in H; [|inversion H; reflexivity].
   destruct (alloc s k (last P "") t) as [s1 e1] eqn:Al.
   apply alloc_cases in Al. destruct Al as [[E1 E2]|[E1 [nd [E2 [Pn [M _]]]]]].
   - subst s1. destruct e1; [inversion H; reflexivity|congruence].
-  - subst e1. apply set_value_err_skel in H.
+  - subst e1. apply (set_value_err_skel _ _ _ _ _ _ _ Hab) in H.
     apply dict_agree.
     + intros x G. rewrite <- (skel_eq_get s1 s' H). subst s1. apply get_forward_app. exact G.
     + intros x G. rewrite <- (skel_eq_get s1 s' H) in G. subst s1. eapply get_backward_app; eauto.
 Qed.
+
+(* ================================================================ K. aliases follow a set_member replacement (both orders) *)
+
+Lemma In_aput_other : forall k v k' v' l, k' <> k -> In (k', v') l -> In (k', v') (aput k v l).
+Proof.
+  intros k v k' v' l Hne. induction l as [|[k2 v2] r IH]; intro H; [contradiction|].
+  unfold aput. simpl. destruct (path_eqb k k2) eqn:E.
+  - apply path_eqb_eq in E. subst k2. destruct H as [H|H]; [inversion H; congruence|right; exact H].
+  - destruct H as [H|H]; [left; exact H|right; apply IH; exact H].
+Qed.
+
+Lemma locate_app : forall s p pj r0 j, get s r0 pj = Ok j -> p <> [] -> locate s r0 (pj ++ p) = locate s (RObj j) p.
+Proof.
+  intros s p pj. induction pj as [|k0 rest IH]; intros r0 j G Hp; [simpl in G; discriminate|].
+  cbn [get] in G. destruct (members_r s r0) as [ms|] eqn:M; [|discriminate].
+  destruct (mlookup k0 ms) as [x|] eqn:L; [|discriminate].
+  change ((k0 :: rest) ++ p) with (k0 :: (rest ++ p)). cbn [locate]. rewrite M.
+  destruct rest as [|k1 rest'].
+  - inversion G; subst x. simpl. destruct p as [|kp p']; [congruence|]. rewrite L. reflexivity.
+  - change ((k1 :: rest') ++ p) with (k1 :: (rest' ++ p)). cbv iota. rewrite L.
+    change (k1 :: rest' ++ p) with ((k1 :: rest') ++ p). apply IH; auto.
+Qed.
+
+Lemma set_target_not_cyclic_paths : forall s a v vp ap, a <> v ->
+  path_of s v = POk vp -> path_of s a = POk ap -> vp <> ap -> set_target s a v <> Err ECyclic.
+Proof.
+  intros s a v vp ap Hne Pv Pa Hd H. unfold set_target in H.
+  destruct (kind_of s a) as [[| | | |]|]; try discriminate.
+  destruct (kind_of s v) as [kv|]; try discriminate.
+  destruct (Nat.eqb v a) eqn:E; [apply Nat.eqb_eq in E; congruence|].
+  rewrite Pv, Pa in H. rewrite (path_eqb_neq vp ap Hd) in H. destruct (is_ali kv); discriminate.
+Qed.
+
+(* storing v leaves the path of every other node alone, and keeps every back-reference whose key is not v's new path *)
+Lemma write_member_others : forall s c k v vn s', SInv s -> Detached s v -> getn s v = Some vn -> SInv s' ->
+  (forall i, c = RObj i -> i <> v /\ exists cn, getn s i = Some cn) ->
+  write_member s c k v = Ok s' ->
+  (forall x, x <> v -> path_of s' x = path_of s x) /\
+  (forall t tn q a, getn s t = Some tn -> In (q, a) (naliases tn) -> path_of s' v <> POk q ->
+     exists tn', getn s' t = Some tn' /\ nkind tn' = nkind tn /\ In (q, a) (naliases tn')).
+Proof.
+  intros s c k v vn s' HI D Gv HI' Hobj W. unfold write_member in W. destruct c as [|i].
+  - inversion W; subst s'. fold (link_root s k v). fold (link_root s k v) in HI'. split.
+    + intros x _. symmetry. apply npk_eq_path.
+      * unfold link_root. simpl. rewrite upd_length. reflexivity.
+      * intro j. rewrite getn_link_root. destruct (Nat.eqb v j); [destruct (getn s j); reflexivity|reflexivity].
+    + intros t tn q a Gt Hin _. rewrite getn_link_root. destruct (Nat.eqb v t).
+      * rewrite Gt. simpl. eexists. split; [reflexivity|]. split; [reflexivity|exact Hin].
+      * exists tn. auto.
+  - destruct (Hobj i eq_refl) as [Hne [cn Gi]]. fold (link_obj s i k v) in W.
+    set (sl := link_obj s i k v) in *.
+    assert (Hnode := fun x => link_obj_node s i k v x Hne). fold sl in Hnode.
+    assert (HSl : skel_eq sl s').
+    { destruct (kind_of s v) as [[| | | |]|]; try (inversion W; apply skel_eq_refl).
+      eapply SInv_update_target_aliases; eauto. }
+    pose proof (skel_eq_SInv s' sl (skel_eq_sym _ _ HSl) HI') as HIl.
+    assert (Hlen : List.length (heap sl) = List.length (heap s)).
+    { unfold sl, link_obj, upd_state. simpl. rewrite !upd_length. reflexivity. }
+    assert (Hpath : forall x, x <> v -> path_of sl x = path_of s x).
+    { intros x Hx. destruct (Nat.lt_ge_cases x (List.length (heap s))) as [Hlt|Hge].
+      - symmetry. apply (path_of_agree s sl (fun y => y = v) (s_par s HI) (s_par sl HIl)); try lia; auto.
+        + intros j Hj. destruct (Hnode j) as [f [E F]]. rewrite E. destruct (getn s j) as [n|]; simpl; auto.
+          destruct (F n) as [_ [_ [F3 [F4 F5]]]]. unfold npk. rewrite F3, F4, F5 by auto. reflexivity.
+        + intros y n c0 G Pn Hc. subst c0. exact (d_leaf s v D y n G Pn).
+      - assert (N1 : nth_error (heap s) x = None) by (apply nth_error_None; lia).
+        assert (N2 : nth_error (heap sl) x = None) by (apply nth_error_None; lia).
+        unfold path_of. rewrite Hlen.
+        destruct (List.length (heap s)) as [|f0]; [reflexivity|]. cbn [pth]. rewrite N1, N2. reflexivity. }
+    split.
+    + intros x Hx. rewrite <- (skel_eq_path sl s' HSl). apply Hpath. exact Hx.
+    + intros t tn q a Gt Hin Hq. rewrite <- (skel_eq_path sl s' HSl) in Hq.
+      assert (Gtl : exists tnl, getn sl t = Some tnl /\ nkind tnl = nkind tn /\ naliases tnl = naliases tn).
+      { destruct (Hnode t) as [f [E F]]. rewrite E, Gt. simpl. eexists. split; [reflexivity|].
+        destruct (F tn) as [F1 [_ [F3 _]]]. auto. }
+      destruct Gtl as [tnl [Gtl [Ktl Atl]]].
+      assert (Hsame : s' = sl -> exists tn', getn s' t = Some tn' /\ nkind tn' = nkind tn /\ In (q, a) (naliases tn')).
+      { intro E. rewrite E. exists tnl. rewrite Atl. auto. }
+      destruct (kind_of s v) as [[| | | |]|]; try (apply Hsame; inversion W; reflexivity).
+      unfold update_target_aliases in W.
+      destruct (getn sl v) as [vl|]; [|apply Hsame; inversion W; reflexivity].
+      destruct (ntarget vl) as [t0|]; [|apply Hsame; inversion W; reflexivity].
+      destruct (path_of sl v) as [pv| |] eqn:Pv; try (apply Hsame; inversion W; reflexivity).
+      inversion W; subst s'. unfold add_backref. rewrite getn_upd. destruct (Nat.eqb t0 t).
+      * rewrite Gtl. simpl. eexists. split; [reflexivity|]. split; [exact Ktl|]. simpl. rewrite Atl.
+        apply In_aput_other; auto. intro Q. apply Hq. congruence.
+      * exists tnl. rewrite Atl. auto.
+Qed.
+
+Theorem alias_follows_replacement : forall s r p k t s' c key m,
+  Inv s -> step s (ONew Producer r p k t) = (s', None) ->
+  locate s r p = Ok (c, key) -> get_at s c key = Ok m -> kind_of s m <> Some KAli ->
+  (ab = true -> recv_live s r = true) ->
+  forall q a n, get s RRoot q = Ok a -> getn s a = Some n -> ntarget n = Some m ->
+  exists n', getn s' a = Some n' /\ ntarget n' = Some (List.length (heap s)) /\
+             (* ... and its target_path is the path the new object had when the aliases were re-targeted *)
+             POk (ntpath n') = (if ab then path_of s' (List.length (heap s)) else POk [last p ""]).
+Proof.
+  intros s r p k t s' c key m [HI HA] H Lc Gm Km Hlive q a n Gq Ga Ta.
+  simpl in H. destruct (recv_exists s r) eqn:Re; simpl in H; [|discriminate].
+  destruct (alloc s k (last p "") t) as [s1 e] eqn:Al.
+  apply alloc_cases in Al. destruct Al as [[E1 E2]|[E1 [nd [E2 [P [M [N [K [AL T]]]]]]]]].
+  { destruct e; [discriminate|congruence]. }
+  subst e. set (v := List.length (heap s)) in *.
+  destruct (SInv_app s nd HI P M) as [HI1 D1]. rewrite <- E2 in HI1, D1. fold v in D1.
+  assert (Gv : getn s1 v = Some nd) by (subst s1; apply getn_app_last).
+  unfold C16_tree.set_value in H. rewrite Gv in H.
+  assert (Lc1 : locate s1 r p = Ok (c, key)) by (subst s1; apply locate_forward_app; exact Lc).
+  rewrite Lc1 in H.
+  pose proof Gm as Gm0.
+  unfold get_at in Gm. destruct (members_r s c) as [ms|] eqn:Mc; [|discriminate].
+  destruct (mlookup key ms) as [m0|] eqn:Lm; [|discriminate]. inversion Gm; subst m0. clear Gm.
+  assert (Mc1 : members_r s1 c = Ok ms) by (subst s1; apply members_r_forward_app; exact Mc).
+  rewrite Mc1 in H. unfold C16_tree.set_at in H. rewrite Lm in H.
+  (* the replaced member exists *)
+  destruct (a_back s HA q a n m Gq Ga Ta) as [mn [Gmn Lk]].
+  assert (Gmn1 : getn s1 m = Some mn).
+  { subst s1. rewrite getn_app_lt by (eapply getn_lt; eauto). exact Gmn. }
+  assert (Am : is_ali (nkind mn) = false).
+  { unfold kind_of in Km. rewrite Gmn in Km. simpl in Km. destruct (nkind mn); auto. congruence. }
+  assert (Hav : a <> v).
+  { pose proof (getn_lt _ _ _ Ga). unfold v. lia. }
+  assert (Hin : In (q, a) (naliases mn)) by (apply alookup_In; exact Lk).
+  assert (Hals1 : repl_aliases s1 m = map snd (naliases mn)).
+  { unfold repl_aliases. rewrite Gmn1, Am. reflexivity. }
+  unfold replace_probe in H. rewrite Gmn1, Gv, Am in H.
+  destruct (Nat.eqb m v); [discriminate|].
+  destruct (is_mod (nkind mn) && is_ali (nkind nd)); [discriminate|].
+  destruct ab.
+  - (* the new member is stored first *)
+    specialize (Hlive eq_refl).
+    assert (And : is_ali (nkind nd) = false).
+    { destruct (is_ali (nkind nd)) eqn:Q; auto. exfalso.
+      assert (Kv : kind_of s1 v = Some KAli). { unfold kind_of. rewrite Gv. simpl. destruct (nkind nd); try discriminate. reflexivity. }
+      rewrite Kv, Hals1 in H. destruct (map snd (naliases mn)) as [|a' r'] eqn:Els; [|discriminate].
+      assert (Q2 : In a (map snd (naliases mn))) by (apply in_map_iff; exists (q, a); auto). rewrite Els in Q2. contradiction. }
+    assert (H' : match write_member s1 c key v with
+                 | Err e => (s1, Some e)
+                 | Ok s2 => retarget_all s2 (repl_aliases s2 m) v end = (s', None)).
+    { destruct (kind_of s1 v) as [[| | | |]|] eqn:Kv; try exact H.
+      exfalso. unfold kind_of in Kv. rewrite Gv in Kv. simpl in Kv. inversion Kv as [Q]. rewrite Q in And. discriminate. }
+    clear H. destruct (write_member s1 c key v) as [s2|e2] eqn:W; [|discriminate].
+    assert (Hr : r <> RObj v).
+    { destruct r as [|j]; [discriminate|]. simpl in Re. apply Nat.ltb_lt in Re. intro E. inversion E. unfold v in *. lia. }
+    assert (Hobj : forall i, c = RObj i -> i <> v /\ exists cn, getn s1 i = Some cn).
+    { intros i Ec. subst c. split; [exact (locate_not_detached s1 v D1 p r i key Hr Lc1)|].
+      apply members_r_obj in Mc1. destruct Mc1 as [cn [Gi _]]. eauto. }
+    assert (HI2 : SInv s2).
+    { apply (SInv_write_member_loose s1 c key v nd s2 HI1 D1 Gv); [ | | exact Hobj | exact W].
+      - rewrite N. symmetry. exact (locate_key s p r c key Lc).
+      - intros _. split; [exact And | exact P]. }
+    destruct (write_member_others s1 c key v nd s2 HI1 D1 Gv HI2 Hobj W) as [Hoth Hkeep].
+    (* the absolute path of the entry *)
+    assert (Habs : exists Pabs, locate s1 RRoot Pabs = Ok (c, key) /\ get s RRoot Pabs = Ok m).
+    { destruct r as [|j].
+      - exists p. split; [exact Lc1|]. rewrite get_locate, Lc. exact Gm0.
+      - simpl in Hlive. apply live_spec in Hlive. destruct Hlive as [pj [_ Gj]].
+        assert (Hp : p <> []) by (intro; subst p; simpl in Lc; discriminate).
+        exists (pj ++ p). split.
+        + rewrite (locate_app s1 p pj RRoot j); auto. subst s1. apply get_forward_app. exact Gj.
+        + rewrite get_locate. rewrite (locate_app s p pj RRoot j Gj Hp). rewrite Lc. exact Gm0. }
+    destruct Habs as [Pabs [LcA GmA]].
+    destruct (link_facts s1 Pabs c key v nd s2 HI1 D1 Gv LcA W) as [s3 [HS3 [_ [_ [GP _]]]]].
+    rewrite (skel_eq_get s3 s2 HS3) in GP.
+    pose proof (retrievable s2 HI2 Pabs v GP) as Pv2.
+    assert (Pa2 : path_of s2 a = POk q).
+    { rewrite (Hoth a Hav).
+      assert (E : path_of s1 a = path_of s a).
+      { symmetry. apply (path_of_agree s s1 (fun y => y = v) (s_par s HI) (s_par s1 HI1)).
+        - intros i Hi. subst s1. destruct (Nat.lt_ge_cases i (List.length (heap s))) as [Hlt|Hge].
+          + rewrite getn_app_lt by auto. reflexivity.
+          + unfold getn. simpl. fold v in Hge.
+            assert (N1 : nth_error (heap s) i = None) by (apply nth_error_None; unfold v in *; lia).
+            assert (N2 : nth_error (heap s ++ [nd]) i = None) by (apply nth_error_None; rewrite app_length; simpl; unfold v in *; lia).
+            rewrite N1, N2. reflexivity.
+        - intros x n0 c0 G Pn Hc. destruct (s_par s HI) as [rk [He _]]. destruct (He x n0 c0 G Pn). unfold v in Hc. lia.
+        - exact Hav.
+        - eapply getn_lt; eauto.
+        - subst s1. simpl. rewrite app_length. simpl. pose proof (getn_lt _ _ _ Ga). lia. }
+      rewrite E. exact (retrievable s HI q a Gq). }
+    assert (Hdq : Pabs <> q).
+    { intro Q. subst q. rewrite GmA in Gq. inversion Gq; subst a.
+      destruct (a_key s HA m mn Pabs m Gmn Hin) as [_ Ka]. congruence. }
+    assert (Hin2 : In a (repl_aliases s2 m)).
+    { destruct (Hkeep m mn q a Gmn1 Hin) as [mn2 [Gm2 [Km2 Hin2]]].
+      - rewrite Pv2. intro Q. inversion Q. congruence.
+      - unfold repl_aliases. rewrite Gm2. rewrite Km2, Am. apply in_map_iff. exists (q, a). auto. }
+    destruct (retarget_all_sets v (repl_aliases s2 m) s2 s' a H') as [n' [G' [T' TP']]]; auto.
+    { intros s0 HS0. apply (set_target_not_cyclic_paths s0 a v Pabs q); auto.
+      + rewrite <- (skel_eq_path s2 s0 HS0). exact Pv2.
+      + rewrite <- (skel_eq_path s2 s0 HS0). exact Pa2. }
+    exists n'. split; [exact G'|]. split; [exact T'|]. symmetry. exact TP'.
+  - (* the aliases are re-targeted first: the new member is still detached, its path is its bare name *)
+    rewrite Hals1 in H.
+    destruct (retarget_all s1 (map snd (naliases mn)) v) as [s2 e1] eqn:R.
+    destruct e1 as [e1|]; [discriminate|].
+    destruct (write_member s2 c key v) as [s3|e3] eqn:W; [|discriminate]. inversion H; subst s3. clear H.
+    assert (Hin' : In a (map snd (naliases mn))) by (apply in_map_iff; exists (q, a); auto).
+    assert (Pv1 : forall vp, path_of s1 v = POk vp -> vp = [last p ""]).
+    { intros vp Pv. rewrite (path_of_unfold s1 v nd (s_par s1 HI1) Gv) in Pv. unfold node_path in Pv. rewrite P in Pv.
+      destruct (is_ali (nkind nd)); [discriminate|]. inversion Pv. rewrite N. reflexivity. }
+    assert (Ha2 : exists n2, getn s2 a = Some n2 /\ ntarget n2 = Some v /\ path_of s2 v = POk (ntpath n2)).
+    { apply (retarget_all_sets v (map snd (naliases mn)) s1 s2 a R); auto.
+      intros s0 HS0. apply set_target_not_cyclic; auto.
+      intros vp Pv. rewrite <- (skel_eq_path s1 s0 HS0) in Pv. rewrite (Pv1 vp Pv). reflexivity. }
+    destruct Ha2 as [n2 [G2 [T2 TP2]]].
+    pose proof (skel_eq_retarget_all (map snd (naliases mn)) s1 v) as HS12. rewrite R in HS12. simpl in HS12.
+    rewrite <- (skel_eq_path s1 s2 HS12) in TP2. apply Pv1 in TP2.
+    destruct (write_member_target s2 c key v s' W a n2 G2) as [n' [G' T']].
+    destruct (write_member_tpath s2 c key v s' W a n2 G2) as [n'' [G'' TP'']].
+    assert (n'' = n') by congruence. subst n''.
+    exists n'. split; [exact G'|]. split; [congruence|]. rewrite TP'', TP2. reflexivity.
+Qed.
+
+(* ================================================================ L. operations on an object of the tree = the same operation on the
+   collection with the absolute path (so the refinement theorems hold for every live receiver) *)
+
+Lemma last_app_ne : forall (pj p : path) d, p <> [] -> last (pj ++ p) d = last p d.
+Proof.
+  intros pj p d Hp. induction pj as [|k0 rest IH]; [reflexivity|].
+  change ((k0 :: rest) ++ p) with (k0 :: (rest ++ p)). destruct (rest ++ p) as [|k1 l] eqn:E.
+  - apply app_eq_nil in E. destruct E. congruence.
+  - rewrite <- E in IH. rewrite <- IH. rewrite E. reflexivity.
+Qed.
+
+Lemma get_lt : forall s, SInv s -> forall p r x, get s r p = Ok x -> x < List.length (heap s).
+Proof.
+  intros s HI p. induction p as [|k p IH]; intros r x G; [simpl in G; discriminate|].
+  cbn [get] in G. destruct (members_r s r) as [ms|] eqn:Mr; [|discriminate].
+  destruct (mlookup k ms) as [y|] eqn:L; [|discriminate].
+  destruct p as [|k2 p2]; [|eapply IH; eauto].
+  inversion G; subst y. destruct r as [|c].
+  - simpl in Mr. inversion Mr; subst. destruct (s_root s HI k x L) as [n [Gn _]]. eapply getn_lt; eauto.
+  - apply members_r_obj in Mr. destruct Mr as [n [Gc [_ E2]]]. subst ms.
+    destruct (s_mem s HI c n k x Gc L) as [n2 [Gn _]]. eapply getn_lt; eauto.
+Qed.
+
+Lemma set_value_recv_abs : forall s a pj j p v, get s RRoot pj = Ok j -> p <> [] ->
+  set_value s a (RObj j) p v = set_value s a RRoot (pj ++ p) v.
+Proof.
+  intros s a pj j p v G Hp. unfold C16_tree.set_value. rewrite (locate_app s p pj RRoot j G Hp). reflexivity.
+Qed.
+
+Theorem step_recv_abs : forall s pj j p, SInv s -> get s RRoot pj = Ok j -> p <> [] ->
+  (forall a k t, step s (ONew a (RObj j) p k t) = step s (ONew a RRoot (pj ++ p) k t)) /\
+  (forall a v, step s (OSet a (RObj j) p v) = step s (OSet a RRoot (pj ++ p) v)) /\
+  (forall a, step s (ODel a (RObj j) p) = step s (ODel a RRoot (pj ++ p))).
+Proof.
+  intros s pj j p HI G Hp. split; [|split].
+  - intros a k t. simpl. pose proof (get_lt s HI pj RRoot j G) as Hlt.
+    apply Nat.ltb_lt in Hlt. rewrite Hlt. simpl. rewrite (last_app_ne pj p "" Hp).
+    destruct (alloc s k (last p "") t) as [s1 [e|]] eqn:Al; [reflexivity|].
+    apply set_value_recv_abs; auto.
+    apply alloc_cases in Al. destruct Al as [[_ E]|[_ [nd [E _]]]]; [congruence|]. subst s1. apply get_forward_app. exact G.
+  - intros a v. simpl. apply set_value_recv_abs; auto.
+  - intros a. simpl. unfold del_value. rewrite (locate_app s p pj RRoot j G Hp). reflexivity.
+Qed.
+
+(* a successful insertion / replacement through an object of the tree *)
+Theorem refines_dict_new_recv : forall s a pj j p k t s', Inv s -> get s RRoot pj = Ok j -> p <> [] ->
+  top_down s (ONew a (RObj j) p k t) = true -> step s (ONew a (RObj j) p k t) = (s', None) ->
+  forall q, dict_of s' q = dict_set (pj ++ p) (List.length (heap s)) (dict_of s) q.
+Proof.
+  intros s a pj j p k t s' HInv G Hp Htd H.
+  destruct (step_recv_abs s pj j p (proj1 HInv) G Hp) as [E _]. rewrite E in H.
+  apply (refines_dict_new s a (pj ++ p) k t s' HInv); auto.
+  simpl. destruct pj as [|k0 rest]; [simpl in G; discriminate|].
+  destruct (rest ++ p) as [|k1 l] eqn:El.
+  - apply app_eq_nil in El. destruct El. congruence.
+  - change ((k0 :: rest) ++ p) with (k0 :: (rest ++ p)). rewrite El. destruct k; reflexivity.
+Qed.
+
+Theorem refines_dict_del_recv : forall s a pj j p s', Inv s -> get s RRoot pj = Ok j -> p <> [] ->
+  step s (ODel a (RObj j) p) = (s', None) ->
+  forall q, dict_of s' q = dict_del (pj ++ p) (dict_of s) q.
+Proof.
+  intros s a pj j p s' HInv G Hp H.
+  destruct (step_recv_abs s pj j p (proj1 HInv) G Hp) as [_ [_ E]]. rewrite E in H.
+  exact (refines_dict_del s a (pj ++ p) s' HInv H).
+Qed.
+
+(* ================================================================ M. witnesses for the re-attachment discipline and for finding C16-F3 *)
+
+(* an alias is replaced by a new alias with the same name and target, then the replaced object is inserted elsewhere:
+   the history is inside the discipline (the replaced alias's back-reference was overwritten by its successor) *)
+Definition sample_reattach : list op :=
+  [ ONew Producer RRoot ["a"] KMod TNone;
+    ONew Producer RRoot ["c"] KMod TNone;
+    ONew Producer RRoot ["a"; "a"] KAttr TNone;
+    ONew Producer RRoot ["c"; "c"] KAli (TObj 2);
+    ONew Consumer RRoot ["c"; "c"] KAli (TObj 2);
+    OSet Producer RRoot ["a"; "c"] 3 ].
+
+Example sample_reattach_disciplined : all_top_down init sample_reattach = true.
+Proof. destruct ab; vm_compute; reflexivity. Qed.
+
+Example sample_reattach_listed :
+  option_map naliases (getn (run init sample_reattach) 2) = Some [(["c"; "c"], 4); (["a"; "c"], 3)] /\
+  path_of (run init sample_reattach) 3 = POk ["a"; "c"] /\ path_of (run init sample_reattach) 4 = POk ["c"; "c"].
+Proof. destruct ab; vm_compute; repeat split; reflexivity. Qed.
+
+(* finding C16-F3: the stale back-reference of a deleted alias is re-targeted by a later replacement and overwrites the
+   entry of the live alias at the path the dead one used to have *)
+Definition witness_F3 : list op :=
+  [ ONew Producer RRoot ["m"] KMod TNone;
+    ONew Producer RRoot ["q"] KMod TNone;
+    ONew Producer RRoot ["m"; "x"] KFun TNone;
+    ONew Producer RRoot ["m"; "t"] KAli (TStr ["m"; "x"]);      (* 3 = a *)
+    OResolve 3;
+    ONew Producer RRoot ["q"; "t"] KAli (TStr ["m"; "x"]);      (* 4 = d *)
+    OResolve 4;
+    ODel Producer RRoot ["m"; "t"];
+    ODel Producer RRoot ["q"; "t"];
+    OSet Producer RRoot ["m"; "t"] 4;       (* d comes back at m.t: its entry under q.t stays behind *)
+    ODel Producer RRoot ["m"; "t"];
+    OSet Producer RRoot ["m"; "t"] 3;       (* a comes back at m.t *)
+    ONew Producer RRoot ["m"; "x"] KFun TNone ].                (* m.x is replaced: a AND the dead d are re-targeted *)
+
+Theorem backref_clobbered_refuted : known_gap witness_F3 = true /\ ~ Backref (run init witness_F3).
+Proof.
+  split; [destruct ab; vm_compute; reflexivity|].
+  intro HB.
+  assert (G : get (run init witness_F3) RRoot ["m"; "t"] = Ok 3) by (destruct ab; vm_compute; reflexivity).
+  destruct (getn (run init witness_F3) 3) as [n|] eqn:Gn; [|destruct ab; vm_compute in Gn; discriminate].
+  assert (T : ntarget n = Some 5) by (destruct ab; vm_compute in Gn; inversion Gn; reflexivity).
+  destruct (HB _ _ _ _ G Gn T) as [_ [tn [Gt Lk]]].
+  destruct ab; vm_compute in Gt; inversion Gt; subst tn; vm_compute in Lk; discriminate.
+Qed.
+
+End Flag.
+
+(* ================================================================ N. finding C16-F2: which path a followed alias records *)
+
+(* "following the replacement" includes naming it: after a set_member replacement through a live receiver, the
+   target_path of every alias of the tree that pointed at the replaced member is the path of the new member *)
+Definition TPathFollows (ab0 : bool) : Prop := forall s r p k t s' c key m,
+  Inv s -> C16_tree.step ab0 s (ONew Producer r p k t) = (s', None) ->
+  locate s r p = Ok (c, key) -> get_at s c key = Ok m -> kind_of s m <> Some KAli -> recv_live s r = true ->
+  forall q a n, get s RRoot q = Ok a -> getn s a = Some n -> ntarget n = Some m ->
+  exists n', getn s' a = Some n' /\ POk (ntpath n') = path_of s' (List.length (heap s)).
+
+(* true when set_member attaches the new member before it re-targets the aliases ... *)
+Theorem target_path_follows : TPathFollows true.
+Proof.
+  intros s r p k t s' c key m HI H Lc Gm Km Hl q a n Gq Ga Ta.
+  destruct (alias_follows_replacement true s r p k t s' c key m HI H Lc Gm Km (fun _ => Hl) q a n Gq Ga Ta) as [n' [G [_ TP]]].
+  exists n'. split; auto.
+Qed.
+
+(* ... and false in the other order: the alias records the bare name of the still detached object *)
+Definition witness_F2_pre : list op :=
+  [ ONew Producer RRoot ["m"] KMod TNone;
+    ONew Producer RRoot ["m"; "f"] KFun TNone;
+    ONew Producer RRoot ["m"; "al"] KAli (TStr ["m"; "f"]);
+    OResolve 2 ].
+
+Theorem target_path_follows_refuted : ~ TPathFollows false.
+Proof.
+  intro H.
+  pose (s := C16_tree.run false init witness_F2_pre).
+  pose (s' := fst (C16_tree.step false s (ONew Producer RRoot ["m"; "f"] KFun TNone))).
+  assert (HI : Inv s) by (apply inv_reachable; vm_compute; reflexivity).
+  assert (E : C16_tree.step false s (ONew Producer RRoot ["m"; "f"] KFun TNone) = (s', None)) by (vm_compute; reflexivity).
+  destruct (getn s 2) as [n|] eqn:Gn; [|vm_compute in Gn; discriminate].
+  assert (T : ntarget n = Some 1) by (vm_compute in Gn; inversion Gn; reflexivity).
+  destruct (H s RRoot ["m"; "f"] KFun TNone s' (RObj 0) "f" 1 HI E) with (q := ["m"; "al"]) (a := 2) (n := n) as [n' [G TP]];
+    try (vm_compute; reflexivity); try (vm_compute; discriminate); auto.
+  vm_compute in G. inversion G; subst n'. vm_compute in TP. discriminate.
+Qed.
+
+Example witness_F2_target_path :
+  option_map ntpath (getn (fst (C16_tree.step false (C16_tree.run false init witness_F2_pre) (ONew Producer RRoot ["m"; "f"] KFun TNone))) 2) = Some ["f"] /\
+  option_map ntpath (getn (fst (C16_tree.step true (C16_tree.run true init witness_F2_pre) (ONew Producer RRoot ["m"; "f"] KFun TNone))) 2) = Some ["m"; "f"].
+Proof. vm_compute. split; reflexivity. Qed.
